@@ -365,13 +365,13 @@ Qed.
 
 (* [bp_fold_spec] for a SEGMENT of the order: the targets of the segment's edges may lie outside it *)
 Lemma bp_fold_seg l : forall (h : heap) log h' log',
-  rules_own h -> wf_heap h -> NoDup l -> noback h l -> (forall c, In c l -> trackedOf h c = true) ->
+  rules_own h -> wf_heap h -> NoDup l -> noback h l ->
   fold_left (process_node rd idseal) l (h, log, Ok tt) = (h', log', Ok tt) ->
   sameS h h' /\
   (forall n, trackedOf h n = true -> accAll (gradOf h n) (contributions rd h' h l n) = Some (gradOf h' n)) /\
   (forall n, trackedOf h n = false -> gradOf h' n = gradOf h n).
 Proof.
-  induction l as [|c l IH]; intros h log h' log' Hown Hwf Hnd Hnb Htr E.
+  induction l as [|c l IH]; intros h log h' log' Hown Hwf Hnd Hnb E.
   - cbn [fold_left] in E. inversion E; subst h' log'. split; [apply sameS_refl|]. split; intros n _; reflexivity.
   - destruct (pn_fold_cons rd _ _ _ _ _ _ E) as (h1 & log1 & E1 & E2).
     destruct (process_node_spec rd _ _ _ _ _ Hown Hwf E1) as (NS & Nc & Nacc & Nun & _ & _).
@@ -379,12 +379,10 @@ Proof.
     assert (Hown1 : rules_own h1) by (eapply rules_own_sameS; eauto).
     assert (Hwf1 : wf_heap h1) by (eapply wf_heap_sameS; eauto).
     assert (Hnb1 : noback h1 l) by (eapply noback_sameS; eauto).
-    assert (Htr1 : forall c0, In c0 l -> trackedOf h1 c0 = true).
-    { intros c0 H0. rewrite <- (sameS_trk _ _ NS). apply Htr. right. exact H0. }
-    destruct (IH h1 log1 h' log' Hown1 Hwf1 Hnd' Hnb1 Htr1 E2) as (IS & Iacc & Iun). clear IH.
-    assert (Hct : trackedOf h c = true) by (apply Htr; left; reflexivity).
+    destruct (IH h1 log1 h' log' Hown1 Hwf1 Hnd' Hnb1 E2) as (IS & Iacc & Iun). clear IH.
     assert (Hfin : gradOf h' c = gradOf h c).
-    { rewrite <- Nc. assert (Hct1 : trackedOf h1 c = true) by (rewrite <- (sameS_trk _ _ NS); exact Hct).
+    { rewrite <- Nc. destruct (trackedOf h1 c) eqn:Hct1; [|apply Iun; exact Hct1].
+      assert (Hct : trackedOf h c = true) by (rewrite (sameS_trk _ _ NS); exact Hct1).
       specialize (Iacc c Hct1). unfold contributions in Iacc. rewrite flat_map_nil' in Iacc; [cbn [accAll] in Iacc; congruence|].
       intros c' Hc'. apply flat_map_nil'. intros e He. unfold contrib_e.
       destruct (fst e =? c) eqn:Ee; [|reflexivity]. apply Nat.eqb_eq in Ee. exfalso.
@@ -542,19 +540,19 @@ Definition topo_block (H : heap) (r x y : nat) (ints : list nat) : Prop :=
     ~ In x pre /\
     (forall c e, In c (topoOrder H r) -> In e (edgesOf H c) -> fst e = y -> In c pre).
 
-Lemma topo_block_intro (H : heap) r x y ints pre post ex :
+Lemma topo_block_intro (H : heap) r x y ints pre post cx ex :
   wf_heap H -> trackedOf H r = true ->
   topoOrder H r = pre ++ (y :: ints) ++ post ->
-  In ex (edgesOf H y) -> fst ex = x -> trackedOf H x = true ->
+  In cx (y :: ints) -> In ex (edgesOf H cx) -> fst ex = x -> trackedOf H x = true ->
   topo_block H r x y ints.
 Proof.
-  intros W Hr E Hex Hfx Tx.
+  intros W Hr E Hcx Hex Hfx Tx.
   destruct (topoOrder_facts H r W Hr) as (Hnd & Htr & Hord & _). cbv zeta in *. rewrite E in Hnd, Hord, Htr.
   exists pre, post. split; [exact E|]. split; [|split].
   - intros n Hn. split; intros X.
     + apply (NoDup_app_disj pre ((y :: ints) ++ post) n Hnd X). apply in_or_app. left. exact Hn.
     + rewrite app_assoc in Hnd. apply (NoDup_app_disj (pre ++ y :: ints) post n Hnd); [apply in_or_app; right; exact Hn|exact X].
-  - intros X. subst x. apply (ord_split H pre ((y :: ints) ++ post) y ex Hnd Hord); [left; reflexivity|exact Hex|exact Tx|exact X].
+  - intros X. subst x. apply (ord_split H pre ((y :: ints) ++ post) cx ex Hnd Hord); [apply in_or_app; left; exact Hcx|exact Hex|exact Tx|exact X].
   - intros c e Hc He Hfe. rewrite E in Hc. apply in_app_or in Hc. destruct Hc as [Hc|Hc]; [exact Hc|exfalso].
     assert (Ty : trackedOf H y = true) by (apply Htr; apply in_or_app; right; left; reflexivity).
     destruct Hc as [<-|Hc].
@@ -565,3 +563,1323 @@ Proof.
 Qed.
 
 End Order.
+
+(* ===================================================================================== *)
+(* 3. the search below y on the concrete edge lists of the five components                  *)
+(* ===================================================================================== *)
+Lemma memb_notin n l : ~ In n l -> memb n l = false.
+Proof. intros Hn. destruct (memb n l) eqn:E; [|reflexivity]. apply memb_in in E. contradiction. Qed.
+
+(* [lia] on the arithmetic hypotheses only *)
+Ltac nlia :=
+  repeat match goal with
+         | H : ?P |- _ =>
+             lazymatch type of P with Prop => idtac end;
+             lazymatch P with
+             | @eq nat _ _ => fail | lt _ _ => fail | le _ _ => fail | not (@eq nat _ _) => fail
+             | or _ _ => fail | and _ _ => fail | _ => idtac
+             end; clear H
+         end; lia.
+
+Ltac in_solve :=
+  repeat match goal with
+         | Hyp : ?G |- ?G => exact Hyp
+         | |- In _ (_ :: _) => first [left; reflexivity | right]
+         | |- In _ (_ ++ _) => apply in_or_app; right
+         end.
+
+(* X : a membership in an explicit list  c1 :: ... :: nv ++ ... :: V ; Bv bounds the elements of nv *)
+Ltac kill X Bv :=
+  lazymatch type of X with
+  | _ \/ _ => let X1 := fresh "X" in destruct X as [X1|X]; [kill X1 Bv | kill X Bv]
+  | False => destruct X
+  | @eq nat _ _ => nlia
+  | In _ _ => first [ contradiction | apply Bv in X; nlia ]
+  end.
+Ltac notin_solve Bv :=
+  apply memb_notin; let X := fresh "X" in intro X; repeat (cbn [In] in X || rewrite in_app_iff in X); kill X Bv.
+
+Section DfsEval.
+Context {A : Type} {SA : Scalar A}.
+Notation heap := (@heap A).
+Notation rule := (@rule A).
+Variable H : heap.
+Hypothesis W : wf_heap H.
+
+Lemma dfs_node1 f n t (r : rule) V R : trackedOf H n = true -> memb n V = false -> edgesOf H n = [(t, r)] ->
+  dfs (S f) H n (V, R) = post n (dfs f H t (n :: V, R)).
+Proof. intros Et Em Ee. cbn [dfs fst snd]. rewrite Et, Em, Ee. reflexivity. Qed.
+
+Lemma dfs_node2 f n t1 (r1 : rule) t2 (r2 : rule) V R :
+  trackedOf H n = true -> memb n V = false -> edgesOf H n = [(t1, r1); (t2, r2)] ->
+  dfs (S f) H n (V, R) = post n (dfs f H t2 (dfs f H t1 (n :: V, R))).
+Proof. intros Et Em Ee. cbn [dfs fst snd]. rewrite Et, Em, Ee. reflexivity. Qed.
+
+(* the input x: visited now or before; either way it is visited afterwards and only nodes <= x are added *)
+Lemma dfs_at f x V R : x < f -> trackedOf H x = true ->
+  exists nv nr, dfs f H x (V, R) = (nv ++ V, nr ++ R) /\
+    (forall m, In m nv -> m <= x) /\ (forall m, In m nr -> m <= x) /\ In x (nv ++ V).
+Proof.
+  intros Hf Tx. destruct (memb x V) eqn:Em.
+  - exists [], []. rewrite dfs_v by exact Em. cbn [app]. split; [reflexivity|]. split; [intros m []|]. split; [intros m []|].
+    apply memb_in. exact Em.
+  - destruct (dfs_cut H W f x V R Hf Tx Em) as (nv & rest & E & Bv & Hx & Br & _).
+    exists nv, (x :: rest). rewrite E. split; [reflexivity|]. split; [exact Bv|]. split.
+    + intros m [<-|Hm]; [lia|]. specialize (Br m Hm). lia.
+    + apply in_or_app. left. exact Hx.
+Qed.
+
+Ltac step1 n r Tn En Bv := erewrite (dfs_node1 _ n _ r); [|exact Tn|notin_solve Bv|exact En].
+Ltac step2 n r r' Tn En Bv := erewrite (dfs_node2 _ n _ r _ r'); [|exact Tn|notin_solve Bv|exact En].
+Ltac seen n := rewrite (dfs_v H _ n) by (cbn [fst]; apply memb_in; in_solve).
+
+Lemma tanh_dfs_y f x y (r1 : rule) V R :
+  edgesOf H y = [(x, r1)] -> trackedOf H y = true -> y < f -> ~ In y V ->
+  exists V' rest, dfs f H y (V, R) = (V', y :: rest ++ R).
+Proof.
+  intros Ey Ty Hf Ny. destruct f as [|f]; [lia|].
+  rewrite (dfs_node1 f y x r1 V R Ty (memb_notin _ _ Ny) Ey).
+  destruct (dfs_grow H W f x (y :: V, R)) as (nv & nr & E & _). rewrite E, post_pair. cbn [fst snd].
+  eexists _, nr. reflexivity.
+Qed.
+
+Lemma relu_dfs_y f x z y (r1 r2 r3 : rule) V R :
+  edgesOf H y = [(z, r1); (x, r2)] -> edgesOf H z = [(x, r3)] ->
+  trackedOf H y = true -> trackedOf H z = true -> trackedOf H x = true ->
+  x < z -> z < y -> y < f -> ~ In y V -> ~ In z V ->
+  exists V' rest, dfs f H y (V, R) = (V', y :: z :: rest ++ R).
+Proof.
+  intros Ey Ez Ty Tz Tx Hxz Hzy Hf Ny Nz.
+  do 2 (destruct f as [|f]; [nlia|]).
+  step2 y r1 r2 Ty Ey Ny. step1 z r3 Tz Ez Ny.
+  destruct (dfs_at f x (z :: y :: V) R) as (nv & nr & E & Bv & Br & Mx); [nlia|exact Tx|]. rewrite E, post_pair.
+  seen x. rewrite post_pair. eexists _, nr. reflexivity.
+Qed.
+
+(* LeakyRelu: z0 = a, s1 = a+1, s2 = a+2, s3 = a+3, b1 = a+4, b2 = a+5, y = a+6 *)
+Lemma leaky_dfs_y f x a (r0 r1 r1' r2 r2' r3 r4 r5 r6 r6' : rule) V R :
+  edgesOf H a = [(x, r0)] ->
+  edgesOf H (a + 1) = [(a, r1); (x, r1')] ->
+  edgesOf H (a + 2) = [(a, r2); (x, r2')] ->
+  edgesOf H (a + 3) = [(a + 2, r3)] ->
+  edgesOf H (a + 4) = [(a + 1, r4)] ->
+  edgesOf H (a + 5) = [(a + 3, r5)] ->
+  edgesOf H (a + 6) = [(a + 4, r6); (a + 5, r6')] ->
+  (forall k, k < 7 -> trackedOf H (a + k) = true) -> trackedOf H x = true ->
+  x < a -> a + 6 < f -> (forall k, k < 7 -> ~ In (a + k) V) ->
+  exists V' rest, dfs f H (a + 6) (V, R) = (V', [a + 6; a + 5; a + 3; a + 2; a + 4; a + 1; a] ++ rest ++ R).
+Proof.
+  intros E0 E1 E2 E3 E4 E5 E6 Tk Tx Hxa Hf Nk.
+  assert (T0 : trackedOf H a = true) by (rewrite <- (Nat.add_0_r a); apply Tk; nlia).
+  pose proof (Tk 1 ltac:(nlia)) as T1. pose proof (Tk 2 ltac:(nlia)) as T2. pose proof (Tk 3 ltac:(nlia)) as T3.
+  pose proof (Tk 4 ltac:(nlia)) as T4. pose proof (Tk 5 ltac:(nlia)) as T5. pose proof (Tk 6 ltac:(nlia)) as T6.
+  assert (N0 : ~ In a V) by (rewrite <- (Nat.add_0_r a); apply Nk; nlia).
+  pose proof (Nk 1 ltac:(nlia)) as N1. pose proof (Nk 2 ltac:(nlia)) as N2. pose proof (Nk 3 ltac:(nlia)) as N3.
+  pose proof (Nk 4 ltac:(nlia)) as N4. pose proof (Nk 5 ltac:(nlia)) as N5. pose proof (Nk 6 ltac:(nlia)) as N6.
+  clear Tk Nk.
+  do 4 (destruct f as [|f]; [nlia|]).
+  step2 (a + 6) r6 r6' T6 E6 N0. step1 (a + 4) r4 T4 E4 N0. step2 (a + 1) r1 r1' T1 E1 N0. step1 a r0 T0 E0 N0.
+  match goal with |- context [dfs f H x (?V0, R)] =>
+    destruct (dfs_at f x V0 R) as (nv & nr & E & Bv & Br & Mx); [nlia|exact Tx|]; rewrite E end.
+  rewrite post_pair. seen x. rewrite !post_pair.
+  step1 (a + 5) r5 T5 E5 Bv. step1 (a + 3) r3 T3 E3 Bv. step2 (a + 2) r2 r2' T2 E2 Bv.
+  seen a. seen x. rewrite !post_pair. eexists _, nr. reflexivity.
+Qed.
+
+(* Sigmoid: one = a, nx = a+1, ex = a+2, b1 = a+3, b2 = a+4, y1 = a+5, y = a+6 *)
+Lemma sigmoid_dfs_y f x a (r0 r1 r2 r3 r4 r5 r5' r6 : rule) V R :
+  edgesOf H a = [(x, r0)] ->
+  edgesOf H (a + 1) = [(x, r1)] ->
+  edgesOf H (a + 2) = [(a + 1, r2)] ->
+  edgesOf H (a + 3) = [(a, r3)] ->
+  edgesOf H (a + 4) = [(a + 2, r4)] ->
+  edgesOf H (a + 5) = [(a + 3, r5); (a + 4, r5')] ->
+  edgesOf H (a + 6) = [(a + 5, r6)] ->
+  (forall k, k < 7 -> trackedOf H (a + k) = true) -> trackedOf H x = true ->
+  x < a -> a + 6 < f -> (forall k, k < 7 -> ~ In (a + k) V) ->
+  exists V' rest, dfs f H (a + 6) (V, R) = (V', [a + 6; a + 5; a + 4; a + 2; a + 1; a + 3; a] ++ rest ++ R).
+Proof.
+  intros E0 E1 E2 E3 E4 E5 E6 Tk Tx Hxa Hf Nk.
+  assert (T0 : trackedOf H a = true) by (rewrite <- (Nat.add_0_r a); apply Tk; nlia).
+  pose proof (Tk 1 ltac:(nlia)) as T1. pose proof (Tk 2 ltac:(nlia)) as T2. pose proof (Tk 3 ltac:(nlia)) as T3.
+  pose proof (Tk 4 ltac:(nlia)) as T4. pose proof (Tk 5 ltac:(nlia)) as T5. pose proof (Tk 6 ltac:(nlia)) as T6.
+  assert (N0 : ~ In a V) by (rewrite <- (Nat.add_0_r a); apply Nk; nlia).
+  pose proof (Nk 1 ltac:(nlia)) as N1. pose proof (Nk 2 ltac:(nlia)) as N2. pose proof (Nk 3 ltac:(nlia)) as N3.
+  pose proof (Nk 4 ltac:(nlia)) as N4. pose proof (Nk 5 ltac:(nlia)) as N5. pose proof (Nk 6 ltac:(nlia)) as N6.
+  clear Tk Nk.
+  do 5 (destruct f as [|f]; [nlia|]).
+  step1 (a + 6) r6 T6 E6 N0. step2 (a + 5) r5 r5' T5 E5 N0. step1 (a + 3) r3 T3 E3 N0. step1 a r0 T0 E0 N0.
+  match goal with |- context [dfs (S f) H x (?V0, R)] =>
+    destruct (dfs_at (S f) x V0 R) as (nv & nr & E & Bv & Br & Mx); [nlia|exact Tx|]; rewrite E end.
+  rewrite !post_pair.
+  step1 (a + 4) r4 T4 E4 Bv. step1 (a + 2) r2 T2 E2 Bv. step1 (a + 1) r1 T1 E1 Bv.
+  seen x. rewrite !post_pair. eexists _, nr. reflexivity.
+Qed.
+
+(* Softmax: ex = a, s = a+1, su = a+2, b1 = a+3, b2 = a+4, y = a+5 *)
+Lemma softmax_dfs_y f x a (r0 r1 r2 r3 r4 r5 r5' : rule) V R :
+  edgesOf H a = [(x, r0)] ->
+  edgesOf H (a + 1) = [(a, r1)] ->
+  edgesOf H (a + 2) = [(a + 1, r2)] ->
+  edgesOf H (a + 3) = [(a, r3)] ->
+  edgesOf H (a + 4) = [(a + 2, r4)] ->
+  edgesOf H (a + 5) = [(a + 3, r5); (a + 4, r5')] ->
+  (forall k, k < 6 -> trackedOf H (a + k) = true) -> trackedOf H x = true ->
+  x < a -> a + 5 < f -> (forall k, k < 6 -> ~ In (a + k) V) ->
+  exists V' rest, dfs f H (a + 5) (V, R) = (V', [a + 5; a + 4; a + 2; a + 1; a + 3; a] ++ rest ++ R).
+Proof.
+  intros E0 E1 E2 E3 E4 E5 Tk Tx Hxa Hf Nk.
+  assert (T0 : trackedOf H a = true) by (rewrite <- (Nat.add_0_r a); apply Tk; nlia).
+  pose proof (Tk 1 ltac:(nlia)) as T1. pose proof (Tk 2 ltac:(nlia)) as T2. pose proof (Tk 3 ltac:(nlia)) as T3.
+  pose proof (Tk 4 ltac:(nlia)) as T4. pose proof (Tk 5 ltac:(nlia)) as T5.
+  assert (N0 : ~ In a V) by (rewrite <- (Nat.add_0_r a); apply Nk; nlia).
+  pose proof (Nk 1 ltac:(nlia)) as N1. pose proof (Nk 2 ltac:(nlia)) as N2. pose proof (Nk 3 ltac:(nlia)) as N3.
+  pose proof (Nk 4 ltac:(nlia)) as N4. pose proof (Nk 5 ltac:(nlia)) as N5.
+  clear Tk Nk.
+  do 4 (destruct f as [|f]; [nlia|]).
+  step2 (a + 5) r5 r5' T5 E5 N0. step1 (a + 3) r3 T3 E3 N0. step1 a r0 T0 E0 N0.
+  match goal with |- context [dfs (S f) H x (?V0, R)] =>
+    destruct (dfs_at (S f) x V0 R) as (nv & nr & E & Bv & Br & Mx); [nlia|exact Tx|]; rewrite E end.
+  rewrite !post_pair.
+  step1 (a + 4) r4 T4 E4 Bv. step1 (a + 2) r2 T2 E2 Bv. step1 (a + 1) r1 T1 E1 Bv.
+  seen a. rewrite !post_pair. eexists _, nr. reflexivity.
+Qed.
+
+End DfsEval.
+
+(* ===================================================================================== *)
+(* 4. GAP 2: the nodes of each component form a contiguous block of the processing order     *)
+(* ===================================================================================== *)
+Section Blocks.
+Context {A : Type} {SA : Scalar A}.
+Notation T := (tensor A).
+Notation heap := (@heap A).
+Notation rule := (@rule A).
+
+Lemma in_topo_tracked (H : heap) r y : In y (topoOrder H r) -> trackedOf H r = true.
+Proof.
+  intros Hin. destruct (trackedOf H r) eqn:E; [reflexivity|]. unfold topoOrder in Hin. cbn [dfs] in Hin.
+  rewrite E in Hin. cbn [negb orb snd] in Hin. destruct Hin.
+Qed.
+
+(* internal nodes lie in [a, L), every node of [a, L) belongs to the component, and no later node has an
+   edge to an internal node: then internal nodes are reachable only through the component *)
+Lemma no_outside_edge_intro (H : heap) a L y ints :
+  wf_heap H -> (forall n, In n ints -> a <= n) -> (forall c, a <= c -> c < L -> In c (y :: ints)) ->
+  (forall c e, L <= c -> In e (edgesOf H c) -> ~ In (fst e) ints) ->
+  no_outside_edge H y ints.
+Proof.
+  intros W Hlo Hmid Hhi c e He Hi. destruct (Nat.lt_ge_cases c a) as [Hc|Hc].
+  - pose proof (wf_heap_edgesOf _ W _ _ He). specialize (Hlo _ Hi). lia.
+  - destruct (Nat.lt_ge_cases c L) as [Hc2|Hc2]; [apply Hmid; assumption|]. exfalso. exact (Hhi c e Hc2 He Hi).
+Qed.
+
+Lemma block_of_dfs (H : heap) r x y ints cx (ex : nat * rule) :
+  wf_heap H -> no_outside_edge H y ints -> (forall n, In n ints -> n < y) ->
+  In y (topoOrder H r) -> In cx (y :: ints) -> In ex (edgesOf H cx) -> fst ex = x -> trackedOf H x = true ->
+  (forall f V R, y < f -> ~ In y V -> (forall n, In n ints -> ~ In n V) ->
+     exists V' rest, dfs f H y (V, R) = (V', (y :: ints) ++ rest ++ R)) ->
+  topo_block H r x y ints.
+Proof.
+  intros W NE Hlow Hin Hcx Hex Hfx Tx Hdfs.
+  destruct (topo_find H W y ints NE Hlow r Hin) as (f & V & R & pre & A1 & A2 & A3 & A4 & A5).
+  destruct (Hdfs f V R A1 A2 A3) as (V' & rest & E). rewrite E in A5. cbn [snd] in A5.
+  apply (topo_block_intro H r x y ints pre (rest ++ R) cx ex W (in_topo_tracked H r y Hin) A5 Hcx Hex Hfx Tx).
+Qed.
+
+Lemma prefS_node (h1 H : heap) i v es : prefS h1 H -> isNode h1 i v es ->
+  valOf H i = Some v /\ trackedOf H i = true /\ edgesOf H i = es.
+Proof. intros [_ P] (Hl & Hv & Ht & He & _). destruct (P i Hl) as (a & b & c). repeat split; congruence. Qed.
+
+Lemma prefS_old (h h1 H : heap) i : isOld h h1 -> prefS h1 H -> i < length h ->
+  valOf H i = valOf h i /\ trackedOf H i = trackedOf h i.
+Proof.
+  intros [Lo Ho] [_ P] Hi. destruct (P i ltac:(lia)) as (a & b & _). unfold valOf, trackedOf in *.
+  rewrite (Ho i Hi) in a, b. split; congruence.
+Qed.
+
+Theorem tanh_block (h h1 H : heap) x y name r :
+  tanh_forward h [Some x] name = (h1, Ok y) -> trackedOf h x = true -> dirtyOf h x = false ->
+  prefS h1 H -> wf_heap H -> In y (topoOrder H r) ->
+  topo_block H r x y [].
+Proof.
+  intros E Tx Dx P W Hin.
+  destruct (tanh_structure h x name h1 y E Tx Dx) as (xv & yv & Hx & Hyv & Ey & L1 & Old & Ny).
+  assert (Hxl : x < length h) by (apply tracked_lt; exact Tx).
+  destruct (prefS_node _ _ _ _ _ P Ny) as (_ & TY & EY).
+  destruct (prefS_old _ _ _ x Old P Hxl) as (_ & TX). rewrite Tx in TX.
+  apply (block_of_dfs H r x y [] y (x, RTanh y x) W);
+    [intros c e _ []|intros n []|exact Hin|left; reflexivity|rewrite EY; left; reflexivity|reflexivity|exact TX|].
+  intros f V R Hf Ny' _. destruct (tanh_dfs_y H W f x y _ V R EY TY Hf Ny') as (V' & rest & Ed). exists V', rest. exact Ed.
+Qed.
+
+Theorem relu_block (h h1 H : heap) x y name r :
+  relu_forward h [Some x] name = (h1, Ok y) -> trackedOf h x = true -> dirtyOf h x = false ->
+  prefS h1 H -> wf_heap H -> no_outside_edge H y [length h] -> In y (topoOrder H r) ->
+  topo_block H r x y [length h].
+Proof.
+  intros E Tx Dx P W NE Hin.
+  pose proof (relu_structure h x name h1 y E Tx Dx) as St. cbv zeta in St.
+  destruct St as (xv & zv & yv & Hx & Hzv & Hyv & Ey & L1 & Old & Nz & Ny).
+  assert (Hxl : x < length h) by (apply tracked_lt; exact Tx).
+  destruct (prefS_node _ _ _ _ _ P Ny) as (_ & TY & EY). destruct (prefS_node _ _ _ _ _ P Nz) as (_ & TZ & EZ).
+  destruct (prefS_old _ _ _ x Old P Hxl) as (_ & TX). rewrite Tx in TX.
+  assert (Hzy : length h < y) by nlia.
+  apply (block_of_dfs H r x y [length h] y (x, RElSel y x (length h)) W NE);
+    [intros n [<-|[]]; exact Hzy|exact Hin|left; reflexivity|rewrite EY; right; left; reflexivity|reflexivity|exact TX|].
+  intros f V R Hf Ny' Ni.
+  destruct (relu_dfs_y H W f x (length h) y _ _ _ V R EY EZ TY TZ TX Hxl Hzy Hf Ny' (Ni _ (or_introl eq_refl)))
+    as (V' & rest & Ed).
+  exists V', rest. exact Ed.
+Qed.
+
+(* k < 7: a + k is y = a + 6 or one of the listed internal nodes *)
+Ltac kcase k Hk tac :=
+  do 7 (destruct k as [|k]; [tac|]); exfalso; nlia.
+
+Theorem leaky_block (h h1 H : heap) (m : A) x y name xv r :
+  leaky_forward h m [Some x] name = (h1, Ok y) ->
+  valOf h x = Some xv -> wf xv -> trackedOf h x = true -> dirtyOf h x = false ->
+  let a := length h in
+  prefS h1 H -> wf_heap H -> no_outside_edge H y [a + 5; a + 3; a + 2; a + 4; a + 1; a] -> In y (topoOrder H r) ->
+  topo_block H r x y [a + 5; a + 3; a + 2; a + 4; a + 1; a].
+Proof.
+  intros E Hx Wx Tx Dx a P W NE Hin.
+  pose proof (leaky_structure h m x name h1 y xv E Hx Wx Tx Dx) as St. cbv zeta in St. fold a in St.
+  destruct St as (zv & p1v & p2v & p3v & yv & _ & _ & _ & _ & _ & Ey & L1 & Old & N0 & N1 & N2 & N3 & N4 & N5 & N6).
+  subst y.
+  assert (Hxl : x < a) by (apply tracked_lt; exact Tx).
+  destruct (prefS_node _ _ _ _ _ P N0) as (_ & T0 & E0). destruct (prefS_node _ _ _ _ _ P N1) as (_ & T1 & E1).
+  destruct (prefS_node _ _ _ _ _ P N2) as (_ & T2 & E2). destruct (prefS_node _ _ _ _ _ P N3) as (_ & T3 & E3).
+  destruct (prefS_node _ _ _ _ _ P N4) as (_ & T4 & E4). destruct (prefS_node _ _ _ _ _ P N5) as (_ & T5 & E5).
+  destruct (prefS_node _ _ _ _ _ P N6) as (_ & T6 & E6).
+  destruct (prefS_old _ _ _ x Old P Hxl) as (_ & TX). rewrite Tx in TX.
+  apply (block_of_dfs H r x (a + 6) _ a (x, RScale a (cst 0 0)) W NE).
+  - intros n Hn. cbn [In] in Hn. nlia.
+  - exact Hin.
+  - in_solve.
+  - rewrite E0. left. reflexivity.
+  - reflexivity.
+  - exact TX.
+  - intros f V R Hf Ny Ni.
+    destruct (leaky_dfs_y H W f x a _ _ _ _ _ _ _ _ _ _ V R E0 E1 E2 E3 E4 E5 E6) as (V' & rest & Ed); [|exact TX|exact Hxl|exact Hf| |].
+    + intros k Hk. do 7 (destruct k as [|k]; [rewrite ?Nat.add_0_r; assumption|]). exfalso. nlia.
+    + intros k Hk. do 6 (destruct k as [|k]; [rewrite ?Nat.add_0_r; apply Ni; in_solve|]).
+      destruct k as [|k]; [exact Ny|exfalso; nlia].
+    + exists V', rest. exact Ed.
+Qed.
+
+Theorem sigmoid_block (h h1 H : heap) x y name xv r :
+  sigmoid_forward h [Some x] name = (h1, Ok y) ->
+  valOf h x = Some xv -> wf xv -> trackedOf h x = true -> dirtyOf h x = false ->
+  let a := length h in
+  prefS h1 H -> wf_heap H -> no_outside_edge H y [a + 5; a + 4; a + 2; a + 1; a + 3; a] -> In y (topoOrder H r) ->
+  topo_block H r x y [a + 5; a + 4; a + 2; a + 1; a + 3; a].
+Proof.
+  intros E Hx Wx Tx Dx a P W NE Hin.
+  pose proof (sigmoid_structure h x name h1 y xv E Hx Wx Tx Dx) as St. cbv zeta in St. fold a in St.
+  destruct St as (onev & nxv & exv & y1v & yv & _ & _ & _ & _ & _ & Ey & L1 & Old & N0 & N1 & N2 & N3 & N4 & N5 & N6).
+  subst y.
+  assert (Hxl : x < a) by (apply tracked_lt; exact Tx).
+  destruct (prefS_node _ _ _ _ _ P N0) as (_ & T0 & E0). destruct (prefS_node _ _ _ _ _ P N1) as (_ & T1 & E1).
+  destruct (prefS_node _ _ _ _ _ P N2) as (_ & T2 & E2). destruct (prefS_node _ _ _ _ _ P N3) as (_ & T3 & E3).
+  destruct (prefS_node _ _ _ _ _ P N4) as (_ & T4 & E4). destruct (prefS_node _ _ _ _ _ P N5) as (_ & T5 & E5).
+  destruct (prefS_node _ _ _ _ _ P N6) as (_ & T6 & E6).
+  destruct (prefS_old _ _ _ x Old P Hxl) as (_ & TX). rewrite Tx in TX.
+  apply (block_of_dfs H r x (a + 6) _ a (x, RPow a x (cst 0 0) true) W NE).
+  - intros n Hn. cbn [In] in Hn. nlia.
+  - exact Hin.
+  - in_solve.
+  - rewrite E0. left. reflexivity.
+  - reflexivity.
+  - exact TX.
+  - intros f V R Hf Ny Ni.
+    destruct (sigmoid_dfs_y H W f x a _ _ _ _ _ _ _ _ V R E0 E1 E2 E3 E4 E5 E6) as (V' & rest & Ed); [|exact TX|exact Hxl|exact Hf| |].
+    + intros k Hk. do 7 (destruct k as [|k]; [rewrite ?Nat.add_0_r; assumption|]). exfalso. nlia.
+    + intros k Hk. do 6 (destruct k as [|k]; [rewrite ?Nat.add_0_r; apply Ni; in_solve|]).
+      destruct k as [|k]; [exact Ny|exfalso; nlia].
+    + exists V', rest. exact Ed.
+Qed.
+
+Theorem softmax_block (h h1 H : heap) dim x y name xv r :
+  softmax_forward h dim [Some x] name = (h1, Ok y) ->
+  valOf h x = Some xv -> wf xv -> trackedOf h x = true -> dirtyOf h x = false ->
+  let a := length h in
+  prefS h1 H -> wf_heap H -> no_outside_edge H y [a + 4; a + 2; a + 1; a + 3; a] -> In y (topoOrder H r) ->
+  topo_block H r x y [a + 4; a + 2; a + 1; a + 3; a].
+Proof.
+  intros E Hx Wx Tx Dx a P W NE Hin.
+  pose proof (softmax_structure h dim x name h1 y xv E Hx Wx Tx Dx) as St. cbv zeta in St. fold a in St.
+  destruct St as (exv & sv & suv & subv & yv & _ & _ & _ & _ & _ & _ & Ey & L1 & Old & N0 & N1 & N2 & N3 & N4 & N5).
+  subst y.
+  assert (Hxl : x < a) by (apply tracked_lt; exact Tx).
+  destruct (prefS_node _ _ _ _ _ P N0) as (_ & T0 & E0). destruct (prefS_node _ _ _ _ _ P N1) as (_ & T1 & E1).
+  destruct (prefS_node _ _ _ _ _ P N2) as (_ & T2 & E2). destruct (prefS_node _ _ _ _ _ P N3) as (_ & T3 & E3).
+  destruct (prefS_node _ _ _ _ _ P N4) as (_ & T4 & E4). destruct (prefS_node _ _ _ _ _ P N5) as (_ & T5 & E5).
+  destruct (prefS_old _ _ _ x Old P Hxl) as (_ & TX). rewrite Tx in TX.
+  apply (block_of_dfs H r x (a + 5) _ a (x, RExp a) W NE).
+  - intros n Hn. cbn [In] in Hn. nlia.
+  - exact Hin.
+  - in_solve.
+  - rewrite E0. left. reflexivity.
+  - reflexivity.
+  - exact TX.
+  - intros f V R Hf Ny Ni.
+    destruct (softmax_dfs_y H W f x a _ _ _ _ _ _ _ V R E0 E1 E2 E3 E4 E5) as (V' & rest & Ed); [|exact TX|exact Hxl|exact Hf| |].
+    + intros k Hk. do 6 (destruct k as [|k]; [rewrite ?Nat.add_0_r; assumption|]). exfalso. nlia.
+    + intros k Hk. do 5 (destruct k as [|k]; [rewrite ?Nat.add_0_r; apply Ni; in_solve|]).
+      destruct k as [|k]; [exact Ny|exfalso; nlia].
+    + exists V', rest. exact Ed.
+Qed.
+
+End Blocks.
+
+(* ---------- [no_outside_edge] for heaps whose later nodes never point at an internal node ---------- *)
+Section Noe.
+Context {A : Type} {SA : Scalar A}.
+Notation heap := (@heap A).
+
+(* c in [a, a + n): c = a + k with k < n *)
+Lemma range_split a n c : a <= c -> c < a + n -> exists k, k < n /\ c = a + k.
+Proof. intros H1 H2. exists (c - a). split; lia. Qed.
+
+Lemma relu_noe (h h1 H : heap) x y name :
+  relu_forward h [Some x] name = (h1, Ok y) -> trackedOf h x = true -> dirtyOf h x = false ->
+  wf_heap H ->
+  (forall c e, length h1 <= c -> In e (edgesOf H c) -> ~ In (fst e) [length h]) ->
+  no_outside_edge H y [length h].
+Proof.
+  intros E Tx Dx W Hhi.
+  pose proof (relu_structure h x name h1 y E Tx Dx) as St. cbv zeta in St.
+  destruct St as (xv & zv & yv & _ & _ & _ & Ey & L1 & _).
+  apply (no_outside_edge_intro H (length h) (length h1) y _ W); [intros n [<-|[]]; lia| |exact Hhi].
+  intros c H1 H2. destruct (range_split (length h) 2 c H1 ltac:(lia)) as (k & Hk & ->). subst y.
+  do 2 (destruct k as [|k]; [rewrite ?Nat.add_0_r, ?Nat.add_1_r; in_solve|]). lia.
+Qed.
+
+Lemma leaky_noe (h h1 H : heap) (m : A) x y name xv :
+  leaky_forward h m [Some x] name = (h1, Ok y) ->
+  valOf h x = Some xv -> wf xv -> trackedOf h x = true -> dirtyOf h x = false ->
+  let a := length h in
+  wf_heap H ->
+  (forall c e, length h1 <= c -> In e (edgesOf H c) -> ~ In (fst e) [a + 5; a + 3; a + 2; a + 4; a + 1; a]) ->
+  no_outside_edge H y [a + 5; a + 3; a + 2; a + 4; a + 1; a].
+Proof.
+  intros E Hx Wx Tx Dx a W Hhi.
+  pose proof (leaky_structure h m x name h1 y xv E Hx Wx Tx Dx) as St. cbv zeta in St. fold a in St.
+  destruct St as (zv & p1v & p2v & p3v & yv & _ & _ & _ & _ & _ & Ey & L1 & _).
+  apply (no_outside_edge_intro H a (length h1) y _ W); [intros n Hn; cbn [In] in Hn; lia| |exact Hhi].
+  intros c H1 H2. destruct (range_split a 7 c H1 ltac:(lia)) as (k & Hk & ->). subst y.
+  do 7 (destruct k as [|k]; [rewrite ?Nat.add_0_r; in_solve|]). lia.
+Qed.
+
+Lemma sigmoid_noe (h h1 H : heap) x y name xv :
+  sigmoid_forward h [Some x] name = (h1, Ok y) ->
+  valOf h x = Some xv -> wf xv -> trackedOf h x = true -> dirtyOf h x = false ->
+  let a := length h in
+  wf_heap H ->
+  (forall c e, length h1 <= c -> In e (edgesOf H c) -> ~ In (fst e) [a + 5; a + 4; a + 2; a + 1; a + 3; a]) ->
+  no_outside_edge H y [a + 5; a + 4; a + 2; a + 1; a + 3; a].
+Proof.
+  intros E Hx Wx Tx Dx a W Hhi.
+  pose proof (sigmoid_structure h x name h1 y xv E Hx Wx Tx Dx) as St. cbv zeta in St. fold a in St.
+  destruct St as (onev & nxv & exv & y1v & yv & _ & _ & _ & _ & _ & Ey & L1 & _).
+  apply (no_outside_edge_intro H a (length h1) y _ W); [intros n Hn; cbn [In] in Hn; lia| |exact Hhi].
+  intros c H1 H2. destruct (range_split a 7 c H1 ltac:(lia)) as (k & Hk & ->). subst y.
+  do 7 (destruct k as [|k]; [rewrite ?Nat.add_0_r; in_solve|]). lia.
+Qed.
+
+Lemma softmax_noe (h h1 H : heap) dim x y name xv :
+  softmax_forward h dim [Some x] name = (h1, Ok y) ->
+  valOf h x = Some xv -> wf xv -> trackedOf h x = true -> dirtyOf h x = false ->
+  let a := length h in
+  wf_heap H ->
+  (forall c e, length h1 <= c -> In e (edgesOf H c) -> ~ In (fst e) [a + 4; a + 2; a + 1; a + 3; a]) ->
+  no_outside_edge H y [a + 4; a + 2; a + 1; a + 3; a].
+Proof.
+  intros E Hx Wx Tx Dx a W Hhi.
+  pose proof (softmax_structure h dim x name h1 y xv E Hx Wx Tx Dx) as St. cbv zeta in St. fold a in St.
+  destruct St as (exv & sv & suv & subv & yv & _ & _ & _ & _ & _ & _ & Ey & L1 & _).
+  apply (no_outside_edge_intro H a (length h1) y _ W); [intros n Hn; cbn [In] in Hn; lia| |exact Hhi].
+  intros c H1 H2. destruct (range_split a 6 c H1 ltac:(lia)) as (k & Hk & ->). subst y.
+  do 6 (destruct k as [|k]; [rewrite ?Nat.add_0_r; in_solve|]). lia.
+Qed.
+
+End Noe.
+
+(* ===================================================================================== *)
+(* 5. the real-number instance: generic glue                                               *)
+(* ===================================================================================== *)
+Lemma filter_none {X} (f : X -> bool) l : (forall x, In x l -> f x = false) -> filter f l = [].
+Proof.
+  induction l as [|a l IH]; intros Hf; [reflexivity|]. cbn [filter]. rewrite (Hf a (or_introl eq_refl)).
+  apply IH. intros x Hx. apply Hf. right. exact Hx.
+Qed.
+
+(* the nodes of the order outside the component *)
+Definition outsideOf {A} (H : @heap A) (r y : nat) (ints : list nat) : list nat :=
+  filter (fun c => negb (memb c (y :: ints))) (topoOrder H r).
+
+Lemma outsideOf_block {A} (H : @heap A) r y ints pre post :
+  topoOrder H r = pre ++ (y :: ints) ++ post ->
+  (forall n, In n (y :: ints) -> ~ In n pre /\ ~ In n post) ->
+  outsideOf H r y ints = pre ++ post.
+Proof.
+  intros E Hd. unfold outsideOf. rewrite E, !filter_app. rewrite (filter_none _ (y :: ints)).
+  - cbn [app]. f_equal; apply filter_all; intros c Hc; apply negb_true_iff; apply memb_notin; intros X;
+      destruct (Hd c X) as [D1 D2]; contradiction.
+  - intros c Hc. apply negb_false_iff. apply memb_in. exact Hc.
+Qed.
+
+Local Open Scope R_scope.
+
+Section R.
+Variables (thr : R) (draw : bool -> nat -> R).
+Local Hint Extern 0 (Scalar R) => exact (R_scalar thr draw) : typeclass_instances.
+Notation T := (tensor R).
+Notation heap := (@heap R).
+Notation idseal := (fun (_ : option nat) (g : T) => g).
+
+(* element-wise sum of a list of contributions *)
+Definition sumC (l : list T) (idx : list nat) : R := fold_right (fun g s => elt g idx + s) 0 l.
+
+Lemma sumC_app l1 l2 idx : sumC (l1 ++ l2) idx = sumC l1 idx + sumC l2 idx.
+Proof. unfold sumC. induction l1 as [|g l1 IH]; cbn [app fold_right]; [ring|]. rewrite IH. ring. Qed.
+
+Lemma accAll_R ds : forall (l : list T) (o : option T), prior_ok ds o -> (forall g, In g l -> wf g /\ dims g = ds) ->
+  exists o', accAll o l = Some o' /\ prior_ok ds o' /\ (o <> None -> o' <> None) /\
+    forall idx, validIdx ds idx -> prior o' idx = prior o idx + sumC l idx.
+Proof.
+  induction l as [|g l IH]; intros o Hp Hl.
+  - exists o. cbn [accAll sumC fold_right]. split; [reflexivity|]. split; [exact Hp|]. split; [auto|]. intros idx _. ring.
+  - destruct (Hl g (or_introl eq_refl)) as [Wg Dg].
+    destruct (acc1_R thr draw ds o g Hp Wg Dg) as (s & Es & Ws & Ds & Gs).
+    destruct (IH (Some s) (conj Ws Ds) (fun g0 H0 => Hl g0 (or_intror H0))) as (o' & Ea & Hp' & Hn' & Gs').
+    exists o'. cbn [accAll]. rewrite Es. split; [exact Ea|]. split; [exact Hp'|]. split; [intros _; apply Hn'; discriminate|].
+    intros idx Hv. rewrite (Gs' idx Hv). cbn [prior]. rewrite (Gs idx Hv). cbn [sumC fold_right]. fold (sumC l idx). ring.
+Qed.
+
+(* the fold-based statement of a component inside the heap H: y's gradient final, internals empty, x any prior *)
+Definition comp_fold (rd : bred) (H : heap) (x y : nat) (ints : list nat) (ds : list nat) (F : T -> assignment) : Prop :=
+  forall (hh : heap) log gy, sameS H hh -> gradOf hh y = Some gy -> wf gy -> dims gy = ds ->
+    (forall n, In n ints -> gradOf hh n = None) -> prior_ok ds (gradOf hh x) ->
+    exists hh' gx lg, fold_left (process_node rd idseal) (y :: ints) (hh, log, Ok tt) = (hh', lg ++ log, Ok tt) /\
+      gradOf hh' x = Some gx /\ dims gx = ds /\ wf gx /\
+      forall idx, validIdx ds idx -> elt gx idx = prior (gradOf hh x) idx + F gy idx.
+
+(* GLUE.  bp_topo from any root above y: fold over pre, over the block, over post *)
+Theorem comp_in_graph rd (H : heap) r x y ints ds F H' log gy :
+  rules_own H -> wf_heap H -> topo_block H r x y ints -> no_outside_edge H y ints ->
+  (forall n, In n ints -> (n < y)%nat) -> (x < y)%nat -> trackedOf H x = true ->
+  comp_fold rd H x y ints ds F ->
+  (forall n, In n ints -> gradOf H n = None) -> prior_ok ds (gradOf H x) ->
+  bp_topo rd idseal H r = (H', log, Ok tt) ->
+  gradOf H' y = Some gy -> wf gy -> dims gy = ds ->
+  (forall g, In g (contributions rd H' H (outsideOf H r y ints) x) -> wf g /\ dims g = ds) ->
+  exists gx, gradOf H' x = Some gx /\ dims gx = ds /\ wf gx /\
+    forall idx, validIdx ds idx ->
+      elt gx idx = prior (gradOf H x) idx + sumC (contributions rd H' H (outsideOf H r y ints) x) idx + F gy idx.
+Proof.
+  intros Hown Hwf (pre & post & Eord & Hdisj & Hxpre & Hcons) NE Hlow Hxy Tx Hfold Hint Hpx E Hgy Wgy Dgy Hout.
+  rewrite (outsideOf_block H r y ints pre post Eord Hdisj) in *.
+  assert (Hyin : In y (topoOrder H r)) by (rewrite Eord; apply in_or_app; right; left; reflexivity).
+  assert (Hr : trackedOf H r = true) by (eapply in_topo_tracked; exact Hyin).
+  destruct (topoOrder_facts H r Hwf Hr) as (Hnd & Htr & Hord & _ & _ & Hle & _). cbv zeta in *.
+  assert (Hyr : (y <= r)%nat) by (apply Hle; exact Hyin).
+  rewrite Eord in Hnd, Htr, Hord.
+  (* unfold bp_topo *)
+  unfold bp_topo in E. rewrite Hr in E. cbn [negb] in E. rewrite Eord in E.
+  set (order := pre ++ (y :: ints) ++ post) in *.
+  destruct (valOf (markDirty H order) r) as [rv|] eqn:Ev; [|inversion E].
+  destruct (toOnes rv) as [ones| |] eqn:Eo; [|inversion E|inversion E].
+  destruct (accumulate (markDirty H order) r ones) as [H2 ra] eqn:Ea.
+  destruct ra as [[]| |]; [|inversion E|inversion E].
+  destruct (accumulate_ok _ _ _ _ _ Ea eq_refl) as (o' & Hacc & HH2).
+  assert (S2 : sameS H H2).
+  { eapply sameS_trans; [apply sameS_markDirty|]. subst H2. apply sameS_setGrad. }
+  assert (Hg2 : forall j, j <> r -> gradOf H2 j = gradOf H j).
+  { intros j Hj. subst H2. rewrite gradOf_setGrad. apply Nat.eqb_neq in Hj. rewrite Hj. apply gradOf_markDirty. }
+  clear Ea Hacc HH2 Ev Eo.
+  (* the three folds *)
+  unfold order in E.
+  destruct (fold_app_ok rd pre ((y :: ints) ++ post) H2 [] H' log E) as (Hp & logp & E1 & E23).
+  destruct (fold_app_ok rd (y :: ints) post Hp logp H' log E23) as (Hb & logb & E2 & E3).
+  assert (SP : sameS H Hp) by (eapply sameS_trans; [exact S2|eapply fold_sameS; exact E1]).
+  assert (SB : sameS H Hb) by (eapply sameS_trans; [exact SP|eapply fold_sameS; exact E2]).
+  assert (SF : sameS H H') by (eapply sameS_trans; [exact SB|eapply fold_sameS; exact E3]).
+  unfold order in Hnd, Hord, Htr.
+  assert (NDpre : NoDup pre) by (eapply NoDup_app_l; exact Hnd).
+  assert (NDpost : NoDup post) by (eapply NoDup_app_r; eapply NoDup_app_r; exact Hnd).
+  pose proof (noback_of_ordered H _ Hnd Hord) as NB.
+  assert (NBpre : noback H pre) by (eapply noback_app_l; exact NB).
+  assert (NBpost : noback H post) by (eapply noback_app_r; eapply noback_app_r; exact NB).
+  (* (a) y holds its final gradient when the block starts: every consumer of y is in pre *)
+  assert (GyP : gradOf Hp y = Some gy).
+  { rewrite <- Hgy. symmetry.
+    apply (fold_inv rd H y ((y :: ints) ++ post) Hp logp (Ok tt) H' log (Ok tt)); [|exact SP|exact E23].
+    intros c e Hc He _ X.
+    assert (Hcp : In c pre) by (apply (Hcons c e); [rewrite Eord; apply in_or_app; right; exact Hc|exact He|exact X]).
+    exact (NoDup_app_disj pre _ c Hnd Hcp Hc). }
+  (* (b) no node of pre has an edge to an internal node *)
+  assert (IntP : forall n, In n ints -> gradOf Hp n = None).
+  { intros n Hn. rewrite <- (Hint n Hn). transitivity (gradOf H2 n).
+    - apply (fold_inv rd H n pre H2 [] (Ok tt) Hp logp (Ok tt)); [|exact S2|exact E1].
+      intros c e Hc He _ X. assert (Hcb : In c (y :: ints)) by (apply (NE c e He); rewrite X; exact Hn).
+      destruct (Hdisj c Hcb) as [D1 _]. exact (D1 Hc).
+    - apply Hg2. specialize (Hlow n Hn). lia. }
+  (* (c) x before the block: its prior and the contributions of its consumers in pre *)
+  assert (Tx2 : trackedOf H2 x = true) by (rewrite <- (sameS_trk _ _ S2); exact Tx).
+  destruct (bp_fold_seg rd pre H2 [] Hp logp) as (_ & AccP & _);
+    [eapply rules_own_sameS; eauto|eapply wf_heap_sameS; eauto|exact NDpre|eapply noback_sameS; eauto|exact E1|].
+  specialize (AccP x Tx2). rewrite (Hg2 x ltac:(lia)) in AccP.
+  rewrite <- (contributions_sameS rd Hp H H2 pre x S2) in AccP.
+  rewrite (contributions_ext rd Hp H' H pre x Hown) in AccP.
+  2:{ intros i. rewrite <- (sameS_val _ _ SP), <- (sameS_val _ _ SF). reflexivity. }
+  2:{ intros c Hc. symmetry.
+      apply (fold_inv rd H c ((y :: ints) ++ post) Hp logp (Ok tt) H' log (Ok tt)); [|exact SP|exact E23].
+      intros c' e Hc' He Ht X. apply (ord_split H pre ((y :: ints) ++ post) c' e Hnd Hord Hc' He Ht). rewrite X. exact Hc. }
+  rewrite contributions_app in Hout.
+  destruct (accAll_R ds (contributions rd H' H pre x) (gradOf H x) Hpx) as (oP & EaP & PokP & _ & SumP).
+  { intros g Hg. apply Hout. apply in_or_app. left. exact Hg. }
+  rewrite EaP in AccP. inversion AccP as [EoP]. clear AccP.
+  (* (d) the block *)
+  destruct (Hfold Hp logp gy SP GyP Wgy Dgy IntP ltac:(rewrite <- EoP; exact PokP)) as (hb & gb & lg & Eb & Gb & Db & Wb & Fb).
+  rewrite Eb in E2. inversion E2; subst hb logb. clear E2.
+  (* (e) after the block: only accumulation of the contributions of the consumers in post *)
+  destruct (bp_fold_seg rd post Hb (lg ++ logp) H' log) as (_ & AccF & _);
+    [eapply rules_own_sameS; eauto|eapply wf_heap_sameS; eauto|exact NDpost|eapply noback_sameS; eauto|exact E3|].
+  specialize (AccF x ltac:(rewrite <- (sameS_trk _ _ SB); exact Tx)). rewrite Gb in AccF.
+  rewrite <- (contributions_sameS rd H' H Hb post x SB) in AccF.
+  destruct (accAll_R ds (contributions rd H' H post x) (Some gb) (conj Wb Db)) as (oF & EaF & PokF & NnF & SumF).
+  { intros g Hg. apply Hout. apply in_or_app. right. exact Hg. }
+  rewrite EaF in AccF. inversion AccF as [EoF]. clear AccF.
+  destruct oF as [gx|]; [|exfalso; apply NnF; [discriminate|reflexivity]].
+  exists gx. split; [symmetry; exact EoF|]. destruct PokF as [Wx Dx]. split; [exact Dx|]. split; [exact Wx|].
+  intros idx Hv. specialize (SumF idx Hv). cbn [prior] in SumF. rewrite SumF, (Fb idx Hv), <- EoP, (SumP idx Hv).
+  rewrite contributions_app, sumC_app. ring.
+Qed.
+
+End R.
+
+(* ===================================================================================== *)
+(* 6. GAP 1: the fold-based theorems on heaps with later nodes                              *)
+(* ===================================================================================== *)
+Section R1.
+Variables (thr : R) (draw : bool -> nat -> R).
+Local Hint Extern 0 (Scalar R) => exact (R_scalar thr draw) : typeclass_instances.
+Notation T := (tensor R).
+Notation heap := (@heap R).
+Notation idseal := (fun (_ : option nat) (g : T) => g).
+
+(* an explicit edge only mentions nodes below L *)
+Ltac elocal :=
+  unfold edge_local; cbn [fst snd rule_y rule_vals]; split; [nlia|split; [nlia|]];
+  let i := fresh "i" in let Hi := fresh "Hi" in
+  intros i Hi; cbn [In] in Hi; repeat (destruct Hi as [Hi|Hi]; [subst i; nlia|]); destruct Hi.
+
+(* the nodes c of an explicit list are below L and their (known) edges are local *)
+Ltac nodes_local :=
+  let c := fresh "c" in let Hc := fresh "Hc" in let e := fresh "e" in let He := fresh "He" in
+  intros c Hc; cbn [In] in Hc;
+  repeat (destruct Hc as [Hc|Hc];
+          [subst c; split; [nlia|];
+           match goal with Eq : edgesOf ?h1 ?n = _ |- forall e0, In e0 (edgesOf ?h1 ?n) -> _ => rewrite Eq end;
+           intros e He; cbn [In] in He; repeat (destruct He as [He|He]; [subst e; elocal|]); destruct He|]);
+  destruct Hc.
+
+Theorem tanh_grad_ext rd (h h1 HH : heap) x y name xv gy log :
+  valOf h x = Some xv -> wf xv -> trackedOf h x = true -> dirtyOf h x = false ->
+  tanh_forward h [Some x] name = (h1, Ok y) ->
+  prefS h1 HH -> gradOf HH y = Some gy -> wf gy -> dims gy = dims xv ->
+  prior_ok (dims xv) (gradOf HH x) ->
+  exists HH' gx,
+    fold_left (process_node rd idseal) [y] (HH, log, Ok tt) = (HH', (y, gy) :: log, Ok tt) /\
+    sameS HH HH' /\ (forall n, n <> x -> gradOf HH' n = gradOf HH n) /\
+    gradOf HH' x = Some gx /\ dims gx = dims xv /\ wf gx /\
+    forall idx, validIdx (dims xv) idx ->
+      elt gx idx = prior (gradOf HH x) idx + elt gy idx * (1 - (tanh (elt xv idx)) ^ 2).
+Proof.
+  intros Hx Wx Tx Dx E P Hgy Wgy Dgy Hp.
+  destruct (tanh_structure h x name h1 y E Tx Dx) as (xv' & yv & _ & _ & Ey & L1 & Old & Ny).
+  assert (Hxl : (x < length h)%nat) by (apply tracked_lt; exact Tx).
+  destruct Ny as (Ly & _ & _ & Ee & _).
+  assert (HxL : (x < length h1)%nat) by nlia.
+  destruct (tanh_grad thr draw rd h h1 (firstn (length h1) HH) x y name xv gy log Hx Wx Tx Dx E (prefS_firstn h1 HH P))
+    as (hT' & gx & Ef & _ & Hoth & Hgx & Dgx & Wgx & F);
+    [rewrite gradOf_firstn_lt by exact Ly; exact Hgy|exact Wgy|exact Dgy|rewrite gradOf_firstn_lt by exact HxL; exact Hp|].
+  pose proof (fun Hl => trunc_transfer rd h1 HH _ log hT' _ (Ok tt) P Hl Ef) as TT.
+  destruct TT as (HH' & F' & S' & Glo & Ghi); [nodes_local|].
+  exists HH', gx. split; [exact F'|]. split; [exact S'|]. split.
+  { intros n Hn. destruct (Nat.lt_ge_cases n (length h1)) as [Hl|Hl].
+    - rewrite (Glo n Hl), (Hoth n Hn). apply gradOf_firstn_lt. exact Hl.
+    - apply Ghi. exact Hl. }
+  split; [rewrite (Glo x HxL); exact Hgx|]. split; [exact Dgx|]. split; [exact Wgx|].
+  intros idx Hv. rewrite (F idx Hv), gradOf_firstn_lt by exact HxL. reflexivity.
+Qed.
+
+Theorem relu_grad_ext rd (h h1 HH : heap) x y name xv gy log :
+  0 <= thr ->
+  valOf h x = Some xv -> wf xv -> trackedOf h x = true -> dirtyOf h x = false ->
+  relu_forward h [Some x] name = (h1, Ok y) ->
+  let z0 := length h in
+  prefS h1 HH -> gradOf HH y = Some gy -> wf gy -> dims gy = dims xv ->
+  gradOf HH z0 = None ->
+  prior_ok (dims xv) (gradOf HH x) ->
+  exists HH' gx gz,
+    fold_left (process_node rd idseal) [y; z0] (HH, log, Ok tt) = (HH', (z0, gz) :: (y, gy) :: log, Ok tt) /\
+    sameS HH HH' /\ (forall n, n <> x -> n <> z0 -> gradOf HH' n = gradOf HH n) /\
+    gradOf HH' x = Some gx /\ dims gx = dims xv /\ wf gx /\
+    forall idx, validIdx (dims xv) idx ->
+      let p := prior (gradOf HH x) idx in
+      elt gx idx = p + elt gy idx * reluD thr (elt xv idx) /\
+      (thr < elt xv idx -> elt gx idx = p + elt gy idx * 1) /\
+      (elt xv idx < - thr -> elt gx idx = p + elt gy idx * 0) /\
+      (elt xv idx = 0 -> elt gx idx = p + elt gy idx * / 2).
+Proof.
+  intros Hthr Hx Wx Tx Dx E z0 P Hgy Wgy Dgy Hgz Hp.
+  pose proof (relu_structure h x name h1 y E Tx Dx) as St. cbv zeta in St. fold z0 in St.
+  destruct St as (xv' & zv & yv & _ & _ & _ & Ey & L1 & Old & Nz & Ny).
+  assert (Hxl : (x < z0)%nat) by (apply tracked_lt; exact Tx).
+  destruct Nz as (Lz & _ & _ & Ez & _). destruct Ny as (Ly & _ & _ & Ee & _).
+  assert (HxL : (x < length h1)%nat) by nlia.
+  destruct (relu_grad thr draw rd h h1 (firstn (length h1) HH) x y name xv gy log Hthr Hx Wx Tx Dx E (prefS_firstn h1 HH P))
+    as (hT' & gx & gz & Ef & _ & Hoth & Hgx & Dgx & Wgx & F);
+    [rewrite gradOf_firstn_lt by exact Ly; exact Hgy|exact Wgy|exact Dgy
+    |fold z0; rewrite gradOf_firstn_lt by exact Lz; exact Hgz|rewrite gradOf_firstn_lt by exact HxL; exact Hp|].
+  fold z0 in Ef, Hoth.
+  pose proof (fun Hl => trunc_transfer rd h1 HH _ log hT' _ (Ok tt) P Hl Ef) as TT.
+  destruct TT as (HH' & F' & S' & Glo & Ghi); [nodes_local|].
+  exists HH', gx, gz. split; [exact F'|]. split; [exact S'|]. split.
+  { intros n Hn Hn2. destruct (Nat.lt_ge_cases n (length h1)) as [Hl|Hl].
+    - rewrite (Glo n Hl), (Hoth n Hn Hn2). apply gradOf_firstn_lt. exact Hl.
+    - apply Ghi. exact Hl. }
+  split; [rewrite (Glo x HxL); exact Hgx|]. split; [exact Dgx|]. split; [exact Wgx|].
+  intros idx Hv. pose proof (F idx Hv) as Fi. cbv zeta in Fi |- *. rewrite gradOf_firstn_lt in Fi by exact HxL. exact Fi.
+Qed.
+
+Theorem leaky_grad_ext rd (h h1 HH : heap) (m : R) x y name xv gy log :
+  0 <= thr ->
+  valOf h x = Some xv -> wf xv -> trackedOf h x = true -> dirtyOf h x = false ->
+  leaky_forward h m [Some x] name = (h1, Ok y) ->
+  let a := length h in
+  prefS h1 HH -> gradOf HH y = Some gy -> wf gy -> dims gy = dims xv ->
+  (forall k, (k < 6)%nat -> gradOf HH (a + k)%nat = None) ->
+  prior_ok (dims xv) (gradOf HH x) ->
+  exists HH' gx lg,
+    fold_left (process_node rd idseal) [y; a + 5; a + 3; a + 2; a + 4; a + 1; a]%nat (HH, log, Ok tt)
+      = (HH', lg ++ log, Ok tt) /\
+    map fst lg = [a; a + 1; a + 4; a + 2; a + 3; a + 5; y]%nat /\
+    sameS HH HH' /\
+    (forall n, n <> x -> (n < a \/ a + 6 <= n)%nat -> gradOf HH' n = gradOf HH n) /\
+    gradOf HH' x = Some gx /\ dims gx = dims xv /\ wf gx /\
+    forall idx, validIdx (dims xv) idx ->
+      let p := prior (gradOf HH x) idx in
+      elt gx idx = p + elt gy idx * leakyD thr m (elt xv idx) /\
+      (thr < elt xv idx -> elt gx idx = p + elt gy idx * 1) /\
+      (elt xv idx < - thr -> elt gx idx = p + elt gy idx * m) /\
+      (elt xv idx = 0 -> elt gx idx = p + elt gy idx * ((1 + m) / 2)).
+Proof.
+  intros Hthr Hx Wx Tx Dx E a P Hgy Wgy Dgy Hint Hp.
+  pose proof (leaky_structure h m x name h1 y xv E Hx Wx Tx Dx) as St. cbv zeta in St. fold a in St.
+  destruct St as (zv & p1v & p2v & p3v & yv & _ & _ & _ & _ & _ & Ey & L1 & Old & N0 & N1 & N2 & N3 & N4 & N5 & N6).
+  subst y.
+  assert (Hxl : (x < a)%nat) by (apply tracked_lt; exact Tx).
+  destruct N0 as (_ & _ & _ & E0 & _). destruct N1 as (_ & _ & _ & E1 & _). destruct N2 as (_ & _ & _ & E2 & _).
+  destruct N3 as (_ & _ & _ & E3 & _). destruct N4 as (_ & _ & _ & E4 & _). destruct N5 as (_ & _ & _ & E5 & _).
+  destruct N6 as (_ & _ & _ & E6 & _).
+  assert (HxL : (x < length h1)%nat) by nlia.
+  destruct (leaky_grad thr draw rd h h1 (firstn (length h1) HH) m x (a + 6)%nat name xv gy log Hthr Hx Wx Tx Dx E (prefS_firstn h1 HH P))
+    as (hT' & gx & lg & Ef & Hlg & _ & Hoth & Hgx & Dgx & Wgx & F);
+    [rewrite gradOf_firstn_lt by nlia; exact Hgy|exact Wgy|exact Dgy
+    |intros k Hk; fold a; rewrite gradOf_firstn_lt by nlia; apply Hint; exact Hk
+    |rewrite gradOf_firstn_lt by exact HxL; exact Hp|].
+  fold a in Ef, Hlg, Hoth.
+  pose proof (fun Hl => trunc_transfer rd h1 HH _ log hT' _ (Ok tt) P Hl Ef) as TT.
+  destruct TT as (HH' & F' & S' & Glo & Ghi); [nodes_local|].
+  exists HH', gx, lg. split; [exact F'|]. split; [exact Hlg|]. split; [exact S'|]. split.
+  { intros n Hn Hn2. destruct (Nat.lt_ge_cases n (length h1)) as [Hl|Hl].
+    - rewrite (Glo n Hl), (Hoth n Hn Hn2). apply gradOf_firstn_lt. exact Hl.
+    - apply Ghi. exact Hl. }
+  split; [rewrite (Glo x HxL); exact Hgx|]. split; [exact Dgx|]. split; [exact Wgx|].
+  intros idx Hv. pose proof (F idx Hv) as Fi. cbv zeta in Fi |- *. rewrite gradOf_firstn_lt in Fi by exact HxL. exact Fi.
+Qed.
+
+Theorem sigmoid_grad_ext rd (h h1 HH : heap) x y name xv gy log :
+  valOf h x = Some xv -> wf xv -> trackedOf h x = true -> dirtyOf h x = false ->
+  sigmoid_forward h [Some x] name = (h1, Ok y) ->
+  let a := length h in
+  prefS h1 HH -> gradOf HH y = Some gy -> wf gy -> dims gy = dims xv ->
+  (forall k, (k < 6)%nat -> gradOf HH (a + k)%nat = None) ->
+  prior_ok (dims xv) (gradOf HH x) ->
+  exists HH' gx lg,
+    fold_left (process_node rd idseal) [y; a + 5; a + 4; a + 2; a + 1; a + 3; a]%nat (HH, log, Ok tt)
+      = (HH', lg ++ log, Ok tt) /\
+    map fst lg = [a; a + 3; a + 1; a + 2; a + 4; a + 5; y]%nat /\
+    sameS HH HH' /\
+    (forall n, n <> x -> (n < a \/ a + 6 <= n)%nat -> gradOf HH' n = gradOf HH n) /\
+    gradOf HH' x = Some gx /\ dims gx = dims xv /\ wf gx /\
+    forall idx, validIdx (dims xv) idx ->
+      elt gx idx = prior (gradOf HH x) idx
+                   + elt gy idx * (logistic (elt xv idx) * (1 - logistic (elt xv idx))).
+Proof.
+  intros Hx Wx Tx Dx E a P Hgy Wgy Dgy Hint Hp.
+  pose proof (sigmoid_structure h x name h1 y xv E Hx Wx Tx Dx) as St. cbv zeta in St. fold a in St.
+  destruct St as (onev & nxv & exv & y1v & yv & _ & _ & _ & _ & _ & Ey & L1 & Old & N0 & N1 & N2 & N3 & N4 & N5 & N6).
+  subst y.
+  assert (Hxl : (x < a)%nat) by (apply tracked_lt; exact Tx).
+  destruct N0 as (_ & _ & _ & E0 & _). destruct N1 as (_ & _ & _ & E1 & _). destruct N2 as (_ & _ & _ & E2 & _).
+  destruct N3 as (_ & _ & _ & E3 & _). destruct N4 as (_ & _ & _ & E4 & _). destruct N5 as (_ & _ & _ & E5 & _).
+  destruct N6 as (_ & _ & _ & E6 & _).
+  assert (HxL : (x < length h1)%nat) by nlia.
+  destruct (sigmoid_grad thr draw rd h h1 (firstn (length h1) HH) x (a + 6)%nat name xv gy log Hx Wx Tx Dx E (prefS_firstn h1 HH P))
+    as (hT' & gx & lg & Ef & Hlg & _ & Hoth & Hgx & Dgx & Wgx & F);
+    [rewrite gradOf_firstn_lt by nlia; exact Hgy|exact Wgy|exact Dgy
+    |intros k Hk; fold a; rewrite gradOf_firstn_lt by nlia; apply Hint; exact Hk
+    |rewrite gradOf_firstn_lt by exact HxL; exact Hp|].
+  fold a in Ef, Hlg, Hoth.
+  pose proof (fun Hl => trunc_transfer rd h1 HH _ log hT' _ (Ok tt) P Hl Ef) as TT.
+  destruct TT as (HH' & F' & S' & Glo & Ghi); [nodes_local|].
+  exists HH', gx, lg. split; [exact F'|]. split; [exact Hlg|]. split; [exact S'|]. split.
+  { intros n Hn Hn2. destruct (Nat.lt_ge_cases n (length h1)) as [Hl|Hl].
+    - rewrite (Glo n Hl), (Hoth n Hn Hn2). apply gradOf_firstn_lt. exact Hl.
+    - apply Ghi. exact Hl. }
+  split; [rewrite (Glo x HxL); exact Hgx|]. split; [exact Dgx|]. split; [exact Wgx|].
+  intros idx Hv. rewrite (F idx Hv), gradOf_firstn_lt by exact HxL. reflexivity.
+Qed.
+
+Theorem softmax_grad_ext rd (h h1 HH : heap) dim x y name xv gy log :
+  valOf h x = Some xv -> wf xv -> trackedOf h x = true -> dirtyOf h x = false ->
+  softmax_forward h dim [Some x] name = (h1, Ok y) ->
+  let a := length h in
+  let n := nth dim (dims xv) 0%nat in
+  prefS h1 HH -> gradOf HH y = Some gy -> wf gy -> dims gy = dims xv ->
+  (forall k, (k < 5)%nat -> gradOf HH (a + k)%nat = None) ->
+  prior_ok (dims xv) (gradOf HH x) ->
+  exists yv HH' gx lg,
+    valOf h1 y = Some yv /\ dims yv = dims xv /\
+    (forall i, validIdx (dims xv) i ->
+       elt yv i = exp (elt xv i) / VjpGatherP.sumN n (fun k => exp (elt xv (setAt dim k i)))) /\
+    fold_left (process_node rd idseal) [y; a + 4; a + 2; a + 1; a + 3; a]%nat (HH, log, Ok tt)
+      = (HH', lg ++ log, Ok tt) /\
+    map fst lg = [a; a + 3; a + 1; a + 2; a + 4; y]%nat /\
+    sameS HH HH' /\
+    (forall m, m <> x -> (m < a \/ a + 5 <= m)%nat -> gradOf HH' m = gradOf HH m) /\
+    gradOf HH' x = Some gx /\ dims gx = dims xv /\ wf gx /\
+    forall i, validIdx (dims xv) i ->
+      elt gx i = prior (gradOf HH x) i +
+                 elt yv i * (elt gy i - rdc rd n * VjpGatherP.sumN n (fun k => elt yv (setAt dim k i) * elt gy (setAt dim k i))).
+Proof.
+  intros Hx Wx Tx Dx E a n P Hgy Wgy Dgy Hint Hp.
+  pose proof (softmax_structure h dim x name h1 y xv E Hx Wx Tx Dx) as St. cbv zeta in St. fold a in St.
+  destruct St as (exv & sv & suv & subv & yv0 & _ & _ & _ & _ & _ & _ & Ey & L1 & Old & N0 & N1 & N2 & N3 & N4 & N5).
+  subst y.
+  assert (Hxl : (x < a)%nat) by (apply tracked_lt; exact Tx).
+  destruct N0 as (_ & _ & _ & E0 & _). destruct N1 as (_ & _ & _ & E1 & _). destruct N2 as (_ & _ & _ & E2 & _).
+  destruct N3 as (_ & _ & _ & E3 & _). destruct N4 as (_ & _ & _ & E4 & _). destruct N5 as (_ & _ & _ & E5 & _).
+  assert (HxL : (x < length h1)%nat) by nlia.
+  destruct (softmax_grad thr draw rd h h1 (firstn (length h1) HH) dim x (a + 5)%nat name xv gy log Hx Wx Tx Dx E (prefS_firstn h1 HH P))
+    as (yv & hT' & gx & lg & Vy & Dy & Fy & Ef & Hlg & _ & Hoth & Hgx & Dgx & Wgx & F);
+    [rewrite gradOf_firstn_lt by nlia; exact Hgy|exact Wgy|exact Dgy
+    |intros k Hk; fold a; rewrite gradOf_firstn_lt by nlia; apply Hint; exact Hk
+    |rewrite gradOf_firstn_lt by exact HxL; exact Hp|].
+  fold a in Ef, Hlg, Hoth. fold n in Fy, F.
+  pose proof (fun Hl => trunc_transfer rd h1 HH _ log hT' _ (Ok tt) P Hl Ef) as TT.
+  destruct TT as (HH' & F' & S' & Glo & Ghi); [nodes_local|].
+  exists yv, HH', gx, lg. split; [exact Vy|]. split; [exact Dy|]. split; [exact Fy|].
+  split; [exact F'|]. split; [exact Hlg|]. split; [exact S'|]. split.
+  { intros m Hm Hm2. destruct (Nat.lt_ge_cases m (length h1)) as [Hl|Hl].
+    - rewrite (Glo m Hl), (Hoth m Hm Hm2). apply gradOf_firstn_lt. exact Hl.
+    - apply Ghi. exact Hl. }
+  split; [rewrite (Glo x HxL); exact Hgx|]. split; [exact Dgx|]. split; [exact Wgx|].
+  intros i Hv. rewrite (F i Hv), gradOf_firstn_lt by exact HxL. reflexivity.
+Qed.
+
+End R1.
+
+(* ===================================================================================== *)
+(* 7. the in-graph theorems                                                                *)
+(* ===================================================================================== *)
+Section R2.
+Variables (thr : R) (draw : bool -> nat -> R).
+Local Hint Extern 0 (Scalar R) => exact (R_scalar thr draw) : typeclass_instances.
+Notation T := (tensor R).
+Notation heap := (@heap R).
+Notation idseal := (fun (_ : option nat) (g : T) => g).
+
+(* ---------- Tanh ---------- *)
+Theorem tanh_grad_in_graph rd (h h1 H H' : heap) x y name xv r log gy :
+  valOf h x = Some xv -> wf xv -> trackedOf h x = true -> dirtyOf h x = false ->
+  tanh_forward h [Some x] name = (h1, Ok y) ->
+  prefS h1 H -> rules_own H -> wf_heap H ->
+  In y (topoOrder H r) ->
+  prior_ok (dims xv) (gradOf H x) ->
+  bp_topo rd idseal H r = (H', log, Ok tt) ->
+  gradOf H' y = Some gy -> wf gy -> dims gy = dims xv ->
+  (forall g, In g (contributions rd H' H (outsideOf H r y []) x) -> wf g /\ dims g = dims xv) ->
+  exists gx, gradOf H' x = Some gx /\ dims gx = dims xv /\ wf gx /\
+    forall idx, validIdx (dims xv) idx ->
+      elt gx idx = prior (gradOf H x) idx + sumC (contributions rd H' H (outsideOf H r y []) x) idx
+                   + elt gy idx * (1 - (tanh (elt xv idx)) ^ 2).
+Proof.
+  intros Hx Wx Tx Dx E P Hown Hwf Hin Hp Ebp Hgy Wgy Dgy Hout.
+  destruct (tanh_structure h x name h1 y E Tx Dx) as (xv' & yv & _ & _ & Ey & L1 & Old & Ny).
+  assert (Hxl : (x < length h)%nat) by (apply tracked_lt; exact Tx).
+  destruct (prefS_old _ _ _ x Old P Hxl) as (_ & TX). rewrite Tx in TX.
+  apply (comp_in_graph thr draw rd H r x y [] (dims xv) (fun gy idx => elt gy idx * (1 - (tanh (elt xv idx)) ^ 2)) H' log gy Hown Hwf);
+    try assumption.
+  - eapply tanh_block; eassumption.
+  - intros c e _ [].
+  - intros n [].
+  - nlia.
+  - intros hh lg gy0 S Hgy0 Wgy0 Dgy0 _ Hp0.
+    destruct (tanh_grad_ext thr draw rd h h1 hh x y name xv gy0 lg Hx Wx Tx Dx E (prefS_sameS _ _ _ P S) Hgy0 Wgy0 Dgy0 Hp0)
+      as (hh' & gx & Ef & _ & _ & Hgx & Dgx & Wgx & F).
+    exists hh', gx, [(y, gy0)]. split; [exact Ef|]. auto.
+  - intros n [].
+Qed.
+
+(* ---------- Relu ---------- *)
+Theorem relu_grad_in_graph rd (h h1 H H' : heap) x y name xv r log gy :
+  0 <= thr ->
+  valOf h x = Some xv -> wf xv -> trackedOf h x = true -> dirtyOf h x = false ->
+  relu_forward h [Some x] name = (h1, Ok y) ->
+  let z0 := length h in
+  prefS h1 H -> rules_own H -> wf_heap H -> no_outside_edge H y [z0] ->
+  In y (topoOrder H r) ->
+  gradOf H z0 = None -> prior_ok (dims xv) (gradOf H x) ->
+  bp_topo rd idseal H r = (H', log, Ok tt) ->
+  gradOf H' y = Some gy -> wf gy -> dims gy = dims xv ->
+  (forall g, In g (contributions rd H' H (outsideOf H r y [z0]) x) -> wf g /\ dims g = dims xv) ->
+  exists gx, gradOf H' x = Some gx /\ dims gx = dims xv /\ wf gx /\
+    forall idx, validIdx (dims xv) idx ->
+      let p := prior (gradOf H x) idx + sumC (contributions rd H' H (outsideOf H r y [z0]) x) idx in
+      elt gx idx = p + elt gy idx * reluD thr (elt xv idx) /\
+      (thr < elt xv idx -> elt gx idx = p + elt gy idx * 1) /\
+      (elt xv idx < - thr -> elt gx idx = p + elt gy idx * 0) /\
+      (elt xv idx = 0 -> elt gx idx = p + elt gy idx * / 2).
+Proof.
+  intros Hthr Hx Wx Tx Dx E z0 P Hown Hwf NE Hin Hgz Hp Ebp Hgy Wgy Dgy Hout.
+  pose proof (relu_structure h x name h1 y E Tx Dx) as St. cbv zeta in St. fold z0 in St.
+  destruct St as (xv' & zv & yv & _ & _ & _ & Ey & L1 & Old & Nz & Ny).
+  assert (Hxl : (x < z0)%nat) by (apply tracked_lt; exact Tx).
+  destruct (prefS_old _ _ _ x Old P Hxl) as (_ & TX). rewrite Tx in TX.
+  destruct (comp_in_graph thr draw rd H r x y [z0] (dims xv) (fun gy idx => elt gy idx * reluD thr (elt xv idx)) H' log gy Hown Hwf)
+    as (gx & Hgx & Dgx & Wgx & F); try assumption.
+  - eapply relu_block; eassumption.
+  - intros n [<-|[]]. nlia.
+  - nlia.
+  - intros hh lg gy0 S Hgy0 Wgy0 Dgy0 Hi0 Hp0.
+    destruct (relu_grad_ext thr draw rd h h1 hh x y name xv gy0 lg Hthr Hx Wx Tx Dx E (prefS_sameS _ _ _ P S) Hgy0 Wgy0 Dgy0
+                (Hi0 _ (or_introl eq_refl)) Hp0)
+      as (hh' & gx & gz & Ef & _ & _ & Hgx & Dgx & Wgx & F).
+    exists hh', gx, [(z0, gz); (y, gy0)]. split; [exact Ef|]. split; [exact Hgx|]. split; [exact Dgx|]. split; [exact Wgx|].
+    intros idx Hv. apply (F idx Hv).
+  - intros n [<-|[]]. exact Hgz.
+  - exists gx. split; [exact Hgx|]. split; [exact Dgx|]. split; [exact Wgx|]. intros idx Hv. cbv zeta.
+    split; [apply (F idx Hv)|]. rewrite (F idx Hv). split; [|split].
+    + intros Hc. rewrite (reluD_pos thr _ Hthr Hc). reflexivity.
+    + intros Hc. rewrite (reluD_neg thr _ Hthr Hc). reflexivity.
+    + intros Hc. rewrite Hc, (reluD_zero thr Hthr). reflexivity.
+Qed.
+
+(* ---------- LeakyRelu ---------- *)
+Theorem leaky_grad_in_graph rd (h h1 H H' : heap) (m : R) x y name xv r log gy :
+  0 <= thr ->
+  valOf h x = Some xv -> wf xv -> trackedOf h x = true -> dirtyOf h x = false ->
+  leaky_forward h m [Some x] name = (h1, Ok y) ->
+  let a := length h in
+  let ints := [a + 5; a + 3; a + 2; a + 4; a + 1; a]%nat in
+  prefS h1 H -> rules_own H -> wf_heap H -> no_outside_edge H y ints ->
+  In y (topoOrder H r) ->
+  (forall n, In n ints -> gradOf H n = None) -> prior_ok (dims xv) (gradOf H x) ->
+  bp_topo rd idseal H r = (H', log, Ok tt) ->
+  gradOf H' y = Some gy -> wf gy -> dims gy = dims xv ->
+  (forall g, In g (contributions rd H' H (outsideOf H r y ints) x) -> wf g /\ dims g = dims xv) ->
+  exists gx, gradOf H' x = Some gx /\ dims gx = dims xv /\ wf gx /\
+    forall idx, validIdx (dims xv) idx ->
+      let p := prior (gradOf H x) idx + sumC (contributions rd H' H (outsideOf H r y ints) x) idx in
+      elt gx idx = p + elt gy idx * leakyD thr m (elt xv idx) /\
+      (thr < elt xv idx -> elt gx idx = p + elt gy idx * 1) /\
+      (elt xv idx < - thr -> elt gx idx = p + elt gy idx * m) /\
+      (elt xv idx = 0 -> elt gx idx = p + elt gy idx * ((1 + m) / 2)).
+Proof.
+  intros Hthr Hx Wx Tx Dx E a ints P Hown Hwf NE Hin Hint Hp Ebp Hgy Wgy Dgy Hout.
+  pose proof (leaky_structure h m x name h1 y xv E Hx Wx Tx Dx) as St. cbv zeta in St. fold a in St.
+  destruct St as (zv & p1v & p2v & p3v & yv & _ & _ & _ & _ & _ & Ey & L1 & Old & _).
+  assert (Hxl : (x < a)%nat) by (apply tracked_lt; exact Tx).
+  destruct (prefS_old _ _ _ x Old P Hxl) as (_ & TX). rewrite Tx in TX.
+  destruct (comp_in_graph thr draw rd H r x y ints (dims xv) (fun gy idx => elt gy idx * leakyD thr m (elt xv idx)) H' log gy Hown Hwf)
+    as (gx & Hgx & Dgx & Wgx & F); try assumption.
+  - eapply leaky_block; eassumption.
+  - intros n Hn. unfold ints in Hn. cbn [In] in Hn. nlia.
+  - nlia.
+  - intros hh lg gy0 S Hgy0 Wgy0 Dgy0 Hi0 Hp0.
+    destruct (leaky_grad_ext thr draw rd h h1 hh m x y name xv gy0 lg Hthr Hx Wx Tx Dx E (prefS_sameS _ _ _ P S) Hgy0 Wgy0 Dgy0)
+      as (hh' & gx & lg' & Ef & _ & _ & _ & Hgx & Dgx & Wgx & F); [|exact Hp0|].
+    { intros k Hk. apply Hi0. unfold ints. fold a. do 6 (destruct k as [|k]; [rewrite ?Nat.add_0_r; in_solve|]). exfalso. nlia. }
+    exists hh', gx, lg'. split; [exact Ef|]. split; [exact Hgx|]. split; [exact Dgx|]. split; [exact Wgx|].
+    intros idx Hv. apply (F idx Hv).
+  - exists gx. split; [exact Hgx|]. split; [exact Dgx|]. split; [exact Wgx|]. intros idx Hv. cbv zeta.
+    split; [apply (F idx Hv)|]. rewrite (F idx Hv). unfold leakyD. split; [|split].
+    + intros Hc. rewrite (reluD_pos thr _ Hthr Hc), (minD_pos thr _ Hthr Hc). f_equal. ring.
+    + intros Hc. rewrite (reluD_neg thr _ Hthr Hc), (minD_neg thr _ Hthr Hc). f_equal. ring.
+    + intros Hc. rewrite Hc, (reluD_zero thr Hthr), (minD_zero thr Hthr). f_equal. field.
+Qed.
+
+(* ---------- Sigmoid ---------- *)
+Theorem sigmoid_grad_in_graph rd (h h1 H H' : heap) x y name xv r log gy :
+  valOf h x = Some xv -> wf xv -> trackedOf h x = true -> dirtyOf h x = false ->
+  sigmoid_forward h [Some x] name = (h1, Ok y) ->
+  let a := length h in
+  let ints := [a + 5; a + 4; a + 2; a + 1; a + 3; a]%nat in
+  prefS h1 H -> rules_own H -> wf_heap H -> no_outside_edge H y ints ->
+  In y (topoOrder H r) ->
+  (forall n, In n ints -> gradOf H n = None) -> prior_ok (dims xv) (gradOf H x) ->
+  bp_topo rd idseal H r = (H', log, Ok tt) ->
+  gradOf H' y = Some gy -> wf gy -> dims gy = dims xv ->
+  (forall g, In g (contributions rd H' H (outsideOf H r y ints) x) -> wf g /\ dims g = dims xv) ->
+  exists gx, gradOf H' x = Some gx /\ dims gx = dims xv /\ wf gx /\
+    forall idx, validIdx (dims xv) idx ->
+      elt gx idx = prior (gradOf H x) idx + sumC (contributions rd H' H (outsideOf H r y ints) x) idx
+                   + elt gy idx * (logistic (elt xv idx) * (1 - logistic (elt xv idx))).
+Proof.
+  intros Hx Wx Tx Dx E a ints P Hown Hwf NE Hin Hint Hp Ebp Hgy Wgy Dgy Hout.
+  pose proof (sigmoid_structure h x name h1 y xv E Hx Wx Tx Dx) as St. cbv zeta in St. fold a in St.
+  destruct St as (onev & nxv & exv & y1v & yv & _ & _ & _ & _ & _ & Ey & L1 & Old & _).
+  assert (Hxl : (x < a)%nat) by (apply tracked_lt; exact Tx).
+  destruct (prefS_old _ _ _ x Old P Hxl) as (_ & TX). rewrite Tx in TX.
+  apply (comp_in_graph thr draw rd H r x y ints (dims xv)
+           (fun gy idx => elt gy idx * (logistic (elt xv idx) * (1 - logistic (elt xv idx)))) H' log gy Hown Hwf); try assumption.
+  - eapply sigmoid_block; eassumption.
+  - intros n Hn. unfold ints in Hn. cbn [In] in Hn. nlia.
+  - nlia.
+  - intros hh lg gy0 S Hgy0 Wgy0 Dgy0 Hi0 Hp0.
+    destruct (sigmoid_grad_ext thr draw rd h h1 hh x y name xv gy0 lg Hx Wx Tx Dx E (prefS_sameS _ _ _ P S) Hgy0 Wgy0 Dgy0)
+      as (hh' & gx & lg' & Ef & _ & _ & _ & Hgx & Dgx & Wgx & F); [|exact Hp0|].
+    { intros k Hk. apply Hi0. unfold ints. fold a. do 6 (destruct k as [|k]; [rewrite ?Nat.add_0_r; in_solve|]). exfalso. nlia. }
+    exists hh', gx, lg'. split; [exact Ef|]. auto.
+Qed.
+
+(* ---------- Softmax ---------- *)
+(* the forward value of the component, read off the fold-based theorem on an auxiliary heap *)
+Lemma softmax_fw (h h1 : heap) dim x y name xv yv :
+  valOf h x = Some xv -> wf xv -> trackedOf h x = true -> dirtyOf h x = false ->
+  softmax_forward h dim [Some x] name = (h1, Ok y) -> valOf h1 y = Some yv ->
+  dims yv = dims xv /\
+  forall i, validIdx (dims xv) i ->
+    elt yv i = exp (elt xv i) / VjpGatherP.sumN (nth dim (dims xv) 0%nat) (fun k => exp (elt xv (setAt dim k i))).
+Proof.
+  intros Hx Wx Tx Dx E Vy.
+  pose proof (softmax_structure h dim x name h1 y xv E Hx Wx Tx Dx) as St. cbv zeta in St.
+  destruct St as (exv & sv & suv & subv & yv0 & _ & _ & _ & _ & _ & _ & Ey & L1 & Old & M0 & M1 & M2 & M3 & M4 & _).
+  assert (Hxl : (x < length h)%nat) by (apply tracked_lt; exact Tx).
+  set (hh0 := setGrad (setGrad h1 y (Some xv)) x None).
+  assert (S0 : sameS h1 hh0) by (eapply sameS_trans; apply sameS_setGrad).
+  assert (Ly : (y <? length h1)%nat = true) by (apply Nat.ltb_lt; nlia).
+  assert (Lx : (x <? length (setGrad h1 y (Some xv)))%nat = true) by (rewrite length_setGrad; apply Nat.ltb_lt; nlia).
+  destruct (softmax_grad thr draw RedSum h h1 hh0 dim x y name xv xv [] Hx Wx Tx Dx E S0)
+    as (yv' & _ & _ & _ & Vy' & Dy' & Fy' & _); [|exact Wx|reflexivity| | |].
+  - unfold hh0. rewrite !gradOf_setGrad. assert (X : (y =? x)%nat = false) by (apply Nat.eqb_neq; nlia).
+    rewrite X, Nat.eqb_refl, Ly. reflexivity.
+  - intros k Hk. unfold hh0. rewrite !gradOf_setGrad.
+    assert (X1 : (length h + k =? x)%nat = false) by (apply Nat.eqb_neq; nlia).
+    assert (X2 : (length h + k =? y)%nat = false) by (apply Nat.eqb_neq; nlia). rewrite X1, X2.
+    do 5 (destruct k as [|k]; [rewrite ?Nat.add_0_r; first [apply M0|apply M1|apply M2|apply M3|apply M4]|]). exfalso. nlia.
+  - unfold hh0. rewrite gradOf_setGrad, Nat.eqb_refl, Lx. exact I.
+  - assert (yv' = yv) by congruence. subst yv'. split; [exact Dy'|exact Fy'].
+Qed.
+
+Theorem softmax_grad_in_graph rd (h h1 H H' : heap) dim x y name xv r log gy :
+  valOf h x = Some xv -> wf xv -> trackedOf h x = true -> dirtyOf h x = false ->
+  softmax_forward h dim [Some x] name = (h1, Ok y) ->
+  let a := length h in
+  let n := nth dim (dims xv) 0%nat in
+  let ints := [a + 4; a + 2; a + 1; a + 3; a]%nat in
+  prefS h1 H -> rules_own H -> wf_heap H -> no_outside_edge H y ints ->
+  In y (topoOrder H r) ->
+  (forall c, In c ints -> gradOf H c = None) -> prior_ok (dims xv) (gradOf H x) ->
+  bp_topo rd idseal H r = (H', log, Ok tt) ->
+  gradOf H' y = Some gy -> wf gy -> dims gy = dims xv ->
+  (forall g, In g (contributions rd H' H (outsideOf H r y ints) x) -> wf g /\ dims g = dims xv) ->
+  exists yv gx,
+    valOf H y = Some yv /\ dims yv = dims xv /\
+    (forall i, validIdx (dims xv) i ->
+       elt yv i = exp (elt xv i) / VjpGatherP.sumN n (fun k => exp (elt xv (setAt dim k i)))) /\
+    gradOf H' x = Some gx /\ dims gx = dims xv /\ wf gx /\
+    forall i, validIdx (dims xv) i ->
+      elt gx i = prior (gradOf H x) i + sumC (contributions rd H' H (outsideOf H r y ints) x) i
+                 + elt yv i * (elt gy i - rdc rd n * VjpGatherP.sumN n (fun k => elt yv (setAt dim k i) * elt gy (setAt dim k i))).
+Proof.
+  intros Hx Wx Tx Dx E a n ints P Hown Hwf NE Hin Hint Hp Ebp Hgy Wgy Dgy Hout.
+  pose proof (softmax_structure h dim x name h1 y xv E Hx Wx Tx Dx) as St. cbv zeta in St. fold a in St.
+  destruct St as (exv & sv & suv & subv & yv & _ & _ & _ & _ & _ & _ & Ey & L1 & Old & _ & _ & _ & _ & _ & N5).
+  assert (Hxl : (x < a)%nat) by (apply tracked_lt; exact Tx).
+  destruct (prefS_old _ _ _ x Old P Hxl) as (_ & TX). rewrite Tx in TX.
+  destruct (prefS_node _ _ _ _ _ P N5) as (VY & _ & _). destruct N5 as (_ & Vy1 & _).
+  destruct (softmax_fw h h1 dim x y name xv yv Hx Wx Tx Dx E Vy1) as [Dyv Fyv]. fold n in Fyv.
+  destruct (comp_in_graph thr draw rd H r x y ints (dims xv)
+              (fun gy i => elt yv i * (elt gy i - rdc rd n * VjpGatherP.sumN n (fun k => elt yv (setAt dim k i) * elt gy (setAt dim k i))))
+              H' log gy Hown Hwf) as (gx & Hgx & Dgx & Wgx & F); try assumption.
+  - eapply softmax_block; eassumption.
+  - intros c Hc. unfold ints in Hc. cbn [In] in Hc. nlia.
+  - nlia.
+  - intros hh lg gy0 S Hgy0 Wgy0 Dgy0 Hi0 Hp0.
+    destruct (softmax_grad_ext thr draw rd h h1 hh dim x y name xv gy0 lg Hx Wx Tx Dx E (prefS_sameS _ _ _ P S) Hgy0 Wgy0 Dgy0)
+      as (yv' & hh' & gx & lg' & Vy' & _ & _ & Ef & _ & _ & _ & Hgx & Dgx & Wgx & F); [|exact Hp0|].
+    { intros k Hk. apply Hi0. unfold ints. fold a. do 5 (destruct k as [|k]; [rewrite ?Nat.add_0_r; in_solve|]). exfalso. nlia. }
+    assert (yv' = yv) by congruence. subst yv'.
+    exists hh', gx, lg'. split; [exact Ef|]. split; [exact Hgx|]. split; [exact Dgx|]. split; [exact Wgx|].
+    intros i Hv. apply (F i Hv).
+  - exists yv, gx. split; [exact VY|]. split; [exact Dyv|]. split; [exact Fyv|]. split; [exact Hgx|]. split; [exact Dgx|].
+    split; [exact Wgx|]. exact F.
+Qed.
+
+End R2.
+
+(* ===================================================================================== *)
+(* 8. non-vacuity: w leaf, x = w.Scale(2) (interior), y = activation(x), r = y.Scale(3) root *)
+(* ===================================================================================== *)
+Module GradChainExamples.
+Import GradActExamples.
+Section Ex.
+Variable draw : bool -> nat -> R.
+Local Hint Extern 0 (Scalar R) => exact (R_scalar 0 draw) : typeclass_instances.
+Notation heap := (@heap R).
+Notation idseal := (fun (_ : option nat) (g : tensor R) => g).
+
+(* evaluate the structure, keep the real-number expressions *)
+Ltac rlazy := lazy -[Rpow Rmult Rplus Rminus Rdiv Rinv Ropp tanh cosh exp IZR dec2R Rmax Rmin Rabs Rle_dec].
+Ltac rlazy_in Hyp := lazy -[Rpow Rmult Rplus Rminus Rdiv Rinv Ropp tanh cosh exp IZR dec2R Rmax Rmin Rabs Rle_dec] in Hyp.
+
+(* ---- Tanh ---- *)
+Definition tH : heap := fst (h_scale (th1 draw) 2 3 (Some 3%nat)).
+
+Lemma tH_pref : prefS (th1 draw) tH.
+Proof. split; [rlazy; lia|]. intros i Hi. do 3 (destruct i as [|i]; [repeat split|]). rlazy_in Hi. lia. Qed.
+
+Lemma tH_own : rules_own tH.
+Proof.
+  intros c n e Hn He.
+  do 4 (destruct c as [|c]; [rlazy_in Hn; inversion Hn; subst n; cbn [nedges In] in He;
+                             repeat (destruct He as [He|He]; [subst e; reflexivity|]); destruct He|]).
+  destruct c; discriminate Hn.
+Qed.
+
+Lemma tH_wf : wf_heap tH.
+Proof.
+  intros c n e Hn He.
+  do 4 (destruct c as [|c]; [rlazy_in Hn; inversion Hn; subst n; cbn [nedges In] in He;
+                             repeat (destruct He as [He|He]; [subst e; cbn [fst]; lia|]); destruct He|]).
+  destruct c; discriminate Hn.
+Qed.
+
+Example tanh_block_ex : topoOrder tH 3 = [3; 2; 1; 0]%nat /\ topo_block tH 3 1 2 [].
+Proof.
+  split; [reflexivity|].
+  eapply (tanh_block (exh draw) (th1 draw) tH 1 2 (Some 2%nat) 3); [apply th1_eq|reflexivity|reflexivity|apply tH_pref|apply tH_wf|].
+  rlazy. auto.
+Qed.
+
+Example tanh_in_graph_ex rd :
+  exists H' log gy gx,
+    bp_topo rd idseal tH 3 = (H', log, Ok tt) /\ gradOf H' 2 = Some gy /\ gradOf H' 1 = Some gx /\
+    elt gy [0%nat] = 3 /\ elt gy [1%nat] = 3 /\
+    elt gx [0%nat] = 3 * (1 - tanh (2 * 3) ^ 2) /\ elt gx [1%nat] = 3 * (1 - tanh (2 * -4) ^ 2).
+Proof.
+  destruct (bp_topo rd idseal tH 3) as [[H' lg] r] eqn:E.
+  assert (Er : r = Ok tt) by (change r with (snd (H', lg, r)); rewrite <- E; vm_compute; reflexivity). subst r.
+  set (gy := vec2 (3 * Rpow (3 * tanh (2 * 3)) (dec2R 0 0)) (3 * Rpow (3 * tanh (2 * -4)) (dec2R 0 0))).
+  assert (Eg : gradOf H' 2 = Some gy) by (change H' with (fst (fst (H', lg, Ok tt))); rewrite <- E; rlazy; reflexivity).
+  destruct (tanh_grad_in_graph 0 draw rd (exh draw) (th1 draw) tH H' 1 2 (Some 2%nat) exx 3 lg gy)
+    as (gx & Hgx & _ & _ & F);
+    [reflexivity|apply wf_vec2|reflexivity|reflexivity|apply th1_eq|apply tH_pref|apply tH_own|apply tH_wf
+    |rlazy; auto|exact I|exact E|exact Eg|apply wf_vec2|reflexivity| |].
+  - intros g Hg. exfalso. rlazy_in Hg. exact Hg.
+  - assert (C0 : contributions rd H' tH (outsideOf tH 3 2 []) 1 = []) by (rlazy; reflexivity).
+    assert (G0 : gradOf tH 1 = None) by reflexivity.
+    exists H', lg, gy, gx. split; [reflexivity|]. split; [exact Eg|]. split; [exact Hgx|].
+    assert (Y0 : elt gy [0%nat] = 3) by (unfold gy; cbn; rewrite dec2R_0, Rpow_0; ring).
+    assert (Y1 : elt gy [1%nat] = 3) by (unfold gy; cbn; rewrite dec2R_0, Rpow_0; ring).
+    split; [exact Y0|]. split; [exact Y1|]. split.
+    + rewrite (F [0%nat]) by (repeat constructor). rewrite C0, G0, Y0. cbn. ring.
+    + rewrite (F [1%nat]) by (repeat constructor). rewrite C0, G0, Y1. cbn. ring.
+Qed.
+
+(* the heap cases of [rules_own] / [wf_heap] / [no_outside_edge] on an explicit heap of n nodes *)
+Tactic Notation "own_cases" integer(n) :=
+  let c := fresh "c" in let nd := fresh "nd" in let e := fresh "e" in let Hn := fresh "Hn" in let He := fresh "He" in
+  intros c nd e Hn He;
+  do n (destruct c as [|c]; [rlazy_in Hn; inversion Hn; subst nd; cbn [nedges In] in He;
+                             repeat (destruct He as [He|He]; [subst e; first [reflexivity | cbn [fst]; lia]|]); destruct He|]);
+  destruct c; discriminate Hn.
+
+Tactic Notation "noe_cases" integer(n) :=
+  let c := fresh "c" in let e := fresh "e" in let He := fresh "He" in let Hi := fresh "Hi" in
+  intros c e He Hi;
+  do n (destruct c as [|c];
+        [rlazy_in He;
+         repeat (destruct He as [He|He];
+                 [subst e; first [ solve [in_solve]
+                                 | exfalso; cbn [fst In] in Hi; repeat (destruct Hi as [Hi|Hi]; [discriminate Hi|]); exact Hi ]|]);
+         try (destruct He)|]);
+  destruct c; rlazy_in He; destruct He.
+
+(* ---- Tanh with a SECOND consumer of x created after the component:
+        0 w, 1 x = w.Scale(2), 2 y = x.Tanh(), 3 u = x.Scale(5), 4/5 Broadcast nodes, 6 r = y.Add(u).
+        The order is [6; 5; 3; 4; 2; 1; 0]: the outside consumer u is processed BEFORE the block [2]
+        and x receives  5 (from u)  +  1 * (1 - tanh^2 x)  (through the component) ---- *)
+Definition dH : heap := fst (h_arith (fst (h_scale (th1 draw) 1 5 (Some 3%nat))) BiAdd 2 3 (Some 4%nat)).
+
+Lemma dH_pref : prefS (th1 draw) dH.
+Proof. split; [rlazy; lia|]. intros i Hi. do 3 (destruct i as [|i]; [repeat split|]). rlazy_in Hi. lia. Qed.
+Lemma dH_own : rules_own dH.
+Proof. own_cases 7. Qed.
+Lemma dH_wf : wf_heap dH.
+Proof. own_cases 7. Qed.
+
+Example tanh_two_consumers_ex rd :
+  topoOrder dH 6 = [6; 5; 3; 4; 2; 1; 0]%nat /\
+  exists H' log gy gx,
+    bp_topo rd idseal dH 6 = (H', log, Ok tt) /\ gradOf H' 2 = Some gy /\ gradOf H' 1 = Some gx /\
+    elt gy [0%nat] = 1 /\ elt gy [1%nat] = 1 /\
+    elt gx [0%nat] = 5 + 1 * (1 - tanh (2 * 3) ^ 2) /\ elt gx [1%nat] = 5 + 1 * (1 - tanh (2 * -4) ^ 2).
+Proof.
+  split; [reflexivity|].
+  destruct (bp_topo rd idseal dH 6) as [[H' lg] r] eqn:E.
+  assert (Er : r = Ok tt) by (change r with (snd (H', lg, r)); rewrite <- E; vm_compute; reflexivity). subst r.
+  assert (Eg : exists a b, gradOf H' 2 = Some (vec2 (Rpow a (dec2R 0 0)) (Rpow b (dec2R 0 0))) /\
+             contributions rd H' dH (outsideOf dH 6 2 []) 1 = [vec2 (5 * Rpow a (dec2R 0 0)) (5 * Rpow b (dec2R 0 0))]).
+  { change H' with (fst (fst (H', lg, Ok tt))). rewrite <- E. rlazy. eexists. eexists. split; reflexivity. }
+  destruct Eg as (ga & gb & Eg & C0). set (gy := vec2 (Rpow ga (dec2R 0 0)) (Rpow gb (dec2R 0 0))) in *.
+  destruct (tanh_grad_in_graph 0 draw rd (exh draw) (th1 draw) dH H' 1 2 (Some 2%nat) exx 6 lg gy)
+    as (gx & Hgx & _ & _ & F);
+    [reflexivity|apply wf_vec2|reflexivity|reflexivity|apply th1_eq|apply dH_pref|apply dH_own|apply dH_wf
+    |rlazy; auto 10|exact I|exact E|exact Eg|apply wf_vec2|reflexivity| |].
+  - rewrite C0. intros g [<-|[]]. split; [apply wf_vec2|reflexivity].
+  - assert (G0 : gradOf dH 1 = None) by reflexivity.
+    assert (Y0 : elt gy [0%nat] = 1) by (unfold gy; cbn; rewrite dec2R_0, Rpow_0; ring).
+    assert (Y1 : elt gy [1%nat] = 1) by (unfold gy; cbn; rewrite dec2R_0, Rpow_0; ring).
+    exists H', lg, gy, gx. split; [reflexivity|]. split; [exact Eg|]. split; [exact Hgx|].
+    split; [exact Y0|]. split; [exact Y1|]. split.
+    + rewrite (F [0%nat]) by (repeat constructor). rewrite C0, G0, Y0. cbn. rewrite dec2R_0, Rpow_0. ring.
+    + rewrite (F [1%nat]) by (repeat constructor). rewrite C0, G0, Y1. cbn. rewrite dec2R_0, Rpow_0. ring.
+Qed.
+
+(* ---- Relu:  nodes 0 w, 1 x, 2 z0, 3 y, 4 r ---- *)
+Definition rH : heap := fst (h_scale (rh1 draw) 3 3 (Some 4%nat)).
+
+Lemma rH_pref : prefS (rh1 draw) rH.
+Proof. split; [rlazy; lia|]. intros i Hi. do 4 (destruct i as [|i]; [repeat split|]). rlazy_in Hi. lia. Qed.
+Lemma rH_own : rules_own rH.
+Proof. own_cases 5. Qed.
+Lemma rH_wf : wf_heap rH.
+Proof. own_cases 5. Qed.
+Lemma rH_noe : no_outside_edge rH 3 [2%nat].
+Proof. noe_cases 5. Qed.
+
+Example relu_block_ex : topoOrder rH 4 = [4; 3; 2; 1; 0]%nat /\ topo_block rH 4 1 3 [2%nat].
+Proof.
+  split; [reflexivity|].
+  eapply (relu_block (exh draw) (rh1 draw) rH 1 3 (Some 2%nat) 4);
+    [apply rh1_eq|reflexivity|reflexivity|apply rH_pref|apply rH_wf|apply rH_noe|]. rlazy. auto.
+Qed.
+
+Example relu_in_graph_ex rd :
+  exists H' log gy gx,
+    bp_topo rd idseal rH 4 = (H', log, Ok tt) /\ gradOf H' 3 = Some gy /\ gradOf H' 1 = Some gx /\
+    elt gy [0%nat] = 3 /\ elt gy [1%nat] = 3 /\ elt gx [0%nat] = 3 /\ elt gx [1%nat] = 0.
+Proof.
+  destruct (bp_topo rd idseal rH 4) as [[H' lg] r] eqn:E.
+  assert (Er : r = Ok tt) by (change r with (snd (H', lg, r)); rewrite <- E; vm_compute; reflexivity). subst r.
+  assert (Eg : exists a b, gradOf H' 3 = Some (vec2 (3 * Rpow a (dec2R 0 0)) (3 * Rpow b (dec2R 0 0)))).
+  { change H' with (fst (fst (H', lg, Ok tt))). rewrite <- E. rlazy. eexists. eexists. reflexivity. }
+  destruct Eg as (ga & gb & Eg). set (gy := vec2 (3 * Rpow ga (dec2R 0 0)) (3 * Rpow gb (dec2R 0 0))) in *.
+  destruct (relu_grad_in_graph 0 draw rd (exh draw) (rh1 draw) rH H' 1 3 (Some 2%nat) exx 4 lg gy)
+    as (gx & Hgx & _ & _ & F);
+    [lra|reflexivity|apply wf_vec2|reflexivity|reflexivity|apply rh1_eq|apply rH_pref|apply rH_own|apply rH_wf|apply rH_noe
+    |rlazy; auto|reflexivity|exact I|exact E|exact Eg|apply wf_vec2|reflexivity| |].
+  - intros g Hg. exfalso. rlazy_in Hg. exact Hg.
+  - assert (C0 : contributions rd H' rH (outsideOf rH 4 3 [length (exh draw)]) 1 = []) by (rlazy; reflexivity).
+    assert (G0 : gradOf rH 1 = None) by reflexivity.
+    assert (Y0 : elt gy [0%nat] = 3) by (unfold gy; cbn; rewrite dec2R_0, Rpow_0; ring).
+    assert (Y1 : elt gy [1%nat] = 3) by (unfold gy; cbn; rewrite dec2R_0, Rpow_0; ring).
+    exists H', lg, gy, gx. split; [reflexivity|]. split; [exact Eg|]. split; [exact Hgx|].
+    split; [exact Y0|]. split; [exact Y1|]. split.
+    + destruct (F [0%nat]) as (_ & Pp & _); [repeat constructor|]. cbv zeta in Pp. rewrite Pp by (cbn; lra).
+      rewrite C0, G0, Y0. cbn. ring.
+    + destruct (F [1%nat]) as (_ & _ & Nn & _); [repeat constructor|]. cbv zeta in Nn. rewrite Nn by (cbn; lra).
+      rewrite C0, G0, Y1. cbn. ring.
+Qed.
+
+(* ---- Sigmoid:  nodes 0 w, 1 x, 2..7 internal, 8 y, 9 r ---- *)
+Definition sH : heap := fst (h_scale (sh1 draw) 8 3 (Some 9%nat)).
+
+Lemma sH_pref : prefS (sh1 draw) sH.
+Proof. split; [rlazy; lia|]. intros i Hi. do 9 (destruct i as [|i]; [repeat split|]). rlazy_in Hi. lia. Qed.
+Lemma sH_own : rules_own sH.
+Proof. own_cases 10. Qed.
+Lemma sH_wf : wf_heap sH.
+Proof. own_cases 10. Qed.
+Lemma sH_noe : no_outside_edge sH 8 [7; 6; 4; 3; 5; 2]%nat.
+Proof. noe_cases 10. Qed.
+
+Example sigmoid_block_ex : topoOrder sH 9 = [9; 8; 7; 6; 4; 3; 5; 2; 1; 0]%nat /\ topo_block sH 9 1 8 [7; 6; 4; 3; 5; 2]%nat.
+Proof.
+  split; [reflexivity|].
+  eapply (sigmoid_block (exh draw) (sh1 draw) sH 1 8 (Some 2%nat) exx 9);
+    [apply sh1_eq|reflexivity|apply wf_vec2|reflexivity|reflexivity|apply sH_pref|apply sH_wf|apply sH_noe|]. rlazy. auto 12.
+Qed.
+
+Example sigmoid_in_graph_ex rd :
+  exists H' log gy gx,
+    bp_topo rd idseal sH 9 = (H', log, Ok tt) /\ gradOf H' 8 = Some gy /\ gradOf H' 1 = Some gx /\
+    elt gy [0%nat] = 3 /\ elt gy [1%nat] = 3 /\
+    elt gx [0%nat] = 3 * (logistic (2 * 3) * (1 - logistic (2 * 3))) /\
+    elt gx [1%nat] = 3 * (logistic (2 * -4) * (1 - logistic (2 * -4))).
+Proof.
+  destruct (bp_topo rd idseal sH 9) as [[H' lg] r] eqn:E.
+  assert (Er : r = Ok tt) by (change r with (snd (H', lg, r)); rewrite <- E; vm_compute; reflexivity). subst r.
+  assert (Eg : exists a b, gradOf H' 8 = Some (vec2 (3 * Rpow a (dec2R 0 0)) (3 * Rpow b (dec2R 0 0)))).
+  { change H' with (fst (fst (H', lg, Ok tt))). rewrite <- E. rlazy. eexists. eexists. reflexivity. }
+  destruct Eg as (ga & gb & Eg). set (gy := vec2 (3 * Rpow ga (dec2R 0 0)) (3 * Rpow gb (dec2R 0 0))) in *.
+  destruct (sigmoid_grad_in_graph 0 draw rd (exh draw) (sh1 draw) sH H' 1 8 (Some 2%nat) exx 9 lg gy)
+    as (gx & Hgx & _ & _ & F);
+    [reflexivity|apply wf_vec2|reflexivity|reflexivity|apply sh1_eq|apply sH_pref|apply sH_own|apply sH_wf|apply sH_noe
+    |rlazy; auto 12| |exact I|exact E|exact Eg|apply wf_vec2|reflexivity| |].
+  - intros n Hn. cbn [In length exh] in Hn. repeat (destruct Hn as [Hn|Hn]; [subst n; reflexivity|]). destruct Hn.
+  - intros g Hg. exfalso. rlazy_in Hg. exact Hg.
+  - match type of F with context [contributions rd H' sH ?o 1] =>
+      assert (C0 : contributions rd H' sH o 1 = []) by (rlazy; reflexivity) end.
+    assert (G0 : gradOf sH 1 = None) by reflexivity.
+    assert (Y0 : elt gy [0%nat] = 3) by (unfold gy; cbn; rewrite dec2R_0, Rpow_0; ring).
+    assert (Y1 : elt gy [1%nat] = 3) by (unfold gy; cbn; rewrite dec2R_0, Rpow_0; ring).
+    exists H', lg, gy, gx. split; [reflexivity|]. split; [exact Eg|]. split; [exact Hgx|].
+    split; [exact Y0|]. split; [exact Y1|]. split.
+    + rewrite (F [0%nat]) by (repeat constructor). rewrite C0, G0, Y0. cbn. ring.
+    + rewrite (F [1%nat]) by (repeat constructor). rewrite C0, G0, Y1. cbn. ring.
+Qed.
+
+End Ex.
+End GradChainExamples.
+
+Print Assumptions trunc_transfer.
+Print Assumptions topo_find.
+Print Assumptions tanh_block.
+Print Assumptions relu_block.
+Print Assumptions leaky_block.
+Print Assumptions sigmoid_block.
+Print Assumptions softmax_block.
+Print Assumptions leaky_noe.
+Print Assumptions bp_fold_seg.
+Print Assumptions comp_in_graph.
+Print Assumptions tanh_grad_ext.
+Print Assumptions relu_grad_ext.
+Print Assumptions leaky_grad_ext.
+Print Assumptions sigmoid_grad_ext.
+Print Assumptions softmax_grad_ext.
+Print Assumptions tanh_grad_in_graph.
+Print Assumptions relu_grad_in_graph.
+Print Assumptions leaky_grad_in_graph.
+Print Assumptions sigmoid_grad_in_graph.
+Print Assumptions softmax_grad_in_graph.
+Print Assumptions GradChainExamples.sigmoid_in_graph_ex.
